@@ -246,4 +246,1225 @@ Proof.
   rewrite He in Hc. simpl in Hc. apply negb_true_iff in Hc. exact Hc.
 Qed.
 
+
+(* ------------------------------------------------------------------ lowopen bounds rmin from below *)
+
+Lemma lastv_ge : forall k n,
+  (forall c, allowed k (last_pos k) c = true -> req k (last_pos k) <= prec c -> n <= lowopen c) -> n <= 14 ->
+  forall cs i, (cs <> [] -> pos_of k (i + length cs - 1) = last_pos k) ->
+  children_allowed k i cs = true -> covers_children st k i cs = true ->
+  Forall (fun c => good st c = true -> lowopen (ekind c) <= rmin c) cs -> Forall (fun c => good st c = true) cs ->
+  n <= lastv k cs.
+Proof.
+  intros k n Hn H14 cs. induction cs as [|c cs IH]; intros i Hp Ha Hc HI Hg; [simpl; exact H14|].
+  simpl in Ha, Hc. apply andb_prop in Ha. destruct Ha as [Ha Ha']. apply andb_prop in Hc. destruct Hc as [Hc Hc'].
+  inversion HI as [|? ? HI1 HI2]; subst. inversion Hg as [|? ? Hg1 Hg2]; subst.
+  destruct cs as [|c' cs].
+  - simpl. assert (E : pos_of k i = last_pos k). { rewrite <- Hp by discriminate. f_equal. simpl. lia. }
+    rewrite E in Ha, Hc. destruct (needs st k (last_pos k) (ekind c)) eqn:En; [exact H14|].
+    specialize (HI1 Hg1). pose proof (bare_prec _ _ _ Hc Ha En) as Hb. specialize (Hn _ Ha Hb). lia.
+  - change (lastv k (c :: c' :: cs)) with (lastv k (c' :: cs)).
+    apply (IH (S i)); try assumption. intros _. rewrite <- Hp by discriminate. f_equal. simpl. lia.
+Qed.
+
+Lemma last_pos_ok : forall l n r, arity_ok l n = true -> open_level (kind_of l) = Some r -> n <> 0 ->
+  pos_of (kind_of l) (n - 1) = last_pos (kind_of l).
+Proof.
+  intros l n r Ha Ho Hn. destruct l; simpl in *; try discriminate Ho; try reflexivity.
+  destruct k; simpl in *; try discriminate Ho; try discriminate Ha; try reflexivity;
+    apply Nat.eqb_eq in Ha; subst n; reflexivity.
+Qed.
+
+Lemma lowopen_le_rmin : forall e, good st e = true -> lowopen (ekind e) <= rmin e.
+Proof.
+  induction e as [l cs IH] using expr_ind'. intros Hg. rewrite rmin_node. simpl ekind.
+  destruct (good_node _ _ Hg) as [Har [Hal [Hco [Hgs _]]]].
+  destruct (open_level (kind_of l)) as [r|] eqn:Eo; [|apply lowopen_le_14].
+  pose proof (lowopen_facts (kind_of l)) as LF. rewrite Eo in LF.
+  apply Nat.min_glb.
+  - specialize (LF KName). apply andb_prop in LF. destruct LF as [LF _]. apply Nat.leb_le in LF. exact LF.
+  - apply (lastv_ge (kind_of l) (lowopen (kind_of l))) with (i := 0); try assumption.
+    + intros c Hac Hrc. specialize (LF c). apply andb_prop in LF. destruct LF as [_ LF].
+      rewrite Hac in LF. apply Nat.leb_le in Hrc. rewrite Hrc in LF. simpl in LF. apply Nat.leb_le in LF. exact LF.
+    + apply lowopen_le_14.
+    + intros Hne. simpl. apply (last_pos_ok l (length cs) r Har Eo). destruct cs; [congruence|simpl; lia].
+Qed.
+
+(* ------------------------------------------------------------------ the first token of a printed expression *)
+
+Lemma pw_head : forall k q c rest,
+  (needs st k q (ekind c) = false -> exists t r, print st c = t :: r /\ starts_expr t = true) ->
+  exists t r, pw k q c ++ rest = t :: r /\ starts_expr t = true.
+Proof.
+  intros k q c rest H. unfold pw, wrap. destruct (needs st k q (ekind c)).
+  - eexists. eexists. split; [reflexivity|reflexivity].
+  - destruct (H eq_refl) as [t [r [E S]]]. rewrite E. eexists. eexists. split; [reflexivity|exact S].
+Qed.
+
+
+Lemma first_expr : forall k c, allowed k 0 c = true ->
+  (kind_eqb k KTuple || kind_eqb k KList || kind_eqb k KIdxTuple || kind_eqb k KJoined) = false -> expr_kindb c = true.
+Proof.
+  intros k c Ha Hk. destruct (allowed_expr_facts k c) as [F _]. rewrite Ha, Hk in F. exact F.
+Qed.
+
+Lemma print_head : forall e, good st e = true -> expr_kindb (ekind e) = true ->
+  exists t r, print st e = t :: r /\ starts_expr t = true.
+Proof.
+  induction e as [l cs IH] using expr_ind'. intros Hg Hk.
+  destruct (good_node _ _ Hg) as [Har [Hal [Hco [Hgs _]]]]. rewrite print_node.
+  assert (FC : forall c0 cs', cs = c0 :: cs' ->
+               (kind_eqb (kind_of l) KTuple || kind_eqb (kind_of l) KList || kind_eqb (kind_of l) KIdxTuple || kind_eqb (kind_of l) KJoined) = false ->
+               forall q rest, exists t r, pw (kind_of l) q c0 ++ rest = t :: r /\ starts_expr t = true).
+  { intros c0 cs' E Hk' q rest. subst cs. apply pw_head. intros _.
+    inversion IH as [|? ? IH0 _]; subst. inversion Hgs as [|? ? Hg0 _]; subst.
+    apply IH0; [exact Hg0|]. simpl in Hal. apply andb_prop in Hal. destruct Hal as [Hal _].
+    assert (P0 : pos_of (kind_of l) 0 = 0) by (destruct l; try reflexivity; destruct k; reflexivity).
+    rewrite P0 in Hal. eapply first_expr; eauto. }
+  destruct l; simpl in Hk; try discriminate Hk.
+  - eexists. eexists. split; reflexivity.
+  - eexists. eexists. split; reflexivity.
+  - discriminate Har.
+  - destruct k; simpl in Hk; try discriminate Hk; simpl in Har; try discriminate Har;
+      try (cbn; eexists; eexists; split; reflexivity);
+      try (destruct cs as [|c0 cs]; [discriminate Har|]; rewrite wrap_children_cons; cbn [layout is_bool is_unary is_binary sep_by kind_of];
+           rewrite <- ?app_assoc; apply (FC c0 cs eq_refl eq_refl)).
+    + (* Subscript *) destruct cs as [|c0 [|c1 [|c2 cs]]]; try discriminate Har. rewrite !wrap_children_cons. cbn [layout is_bool is_unary is_binary wrap_children].
+      apply (FC c0 [c1] eq_refl eq_refl).
+    + (* IfExp *) destruct cs as [|c0 [|c1 [|c2 [|c3 cs]]]]; try discriminate Har. rewrite !wrap_children_cons. cbn [layout is_bool is_unary is_binary wrap_children].
+      apply (FC c0 [c1; c2] eq_refl eq_refl).
+    + (* Tuple *) destruct cs as [|c0 [|c1 cs]]; cbn; eexists; eexists; split; reflexivity.
+  - (* Compare *) destruct cs as [|c0 cs]; [discriminate Har|]. rewrite wrap_children_cons. cbn [layout]. apply (FC c0 cs eq_refl eq_refl).
+  - (* Lambda *) cbn. eexists. eexists. split; reflexivity.
+  - (* Attribute *) destruct cs as [|c0 [|c1 cs]]; try discriminate Har. rewrite wrap_children_cons. cbn [layout wrap_children concat]. rewrite app_nil_r.
+    apply (FC c0 [] eq_refl eq_refl).
+  - (* Joined *) destruct lits as [|l0 ls]; [discriminate Har|]. cbn. eexists. eexists. split; reflexivity.
+Qed.
+
+
+(* ------------------------------------------------------------------ unfolding the parser one step *)
+
+Lemma parse_e_un : forall f lvl k r, is_unary k = true -> lvl <= prec k ->
+  parse_e (S f) lvl (TUn k :: r) =
+  match parse_e f (req k 0) r with Some (a, r') => climb f lvl (Node (LOp k) [a]) r' | None => None end.
+Proof. intros f lvl k r Hu Hl. apply Nat.leb_le in Hl. simpl. rewrite Hu, Hl. reflexivity. Qed.
+
+Lemma parse_e_lambda : forall f lvl args r, lvl <= prec KLambda ->
+  parse_e (S f) lvl (TLambda args :: r) =
+  match parse_e f (req KLambda 0) r with Some (b, r') => climb f lvl (Node (LLambda args) [b]) r' | None => None end.
+Proof. intros f lvl args r Hl. apply Nat.leb_le in Hl. simpl. simpl in Hl. rewrite Hl. reflexivity. Qed.
+
+Lemma parse_e_paren : forall f lvl t r, starts_expr t = true ->
+  parse_e (S f) lvl (TLP :: t :: r) =
+  match parse_elt f (t :: r) with
+  | Some (a, TRP :: r') => if expr_kindb (ekind a) then climb f lvl a r' else None
+  | Some (a, TTrail :: TRP :: r') => climb f lvl (Node (LOp KTuple) [a]) r'
+  | Some (a, TComma :: r1) =>
+      match parse_elts f r1 with
+      | Some (more, TRP :: r') => climb f lvl (Node (LOp KTuple) (a :: more)) r'
+      | _ => None
+      end
+  | _ => None
+  end.
+Proof. intros f lvl t r H. destruct t; try discriminate H; reflexivity. Qed.
+
+Lemma parse_e_paren_star : forall f lvl r,
+  parse_e (S f) lvl (TLP :: TStar :: r) =
+  match parse_elt f (TStar :: r) with
+  | Some (a, TRP :: r') => if expr_kindb (ekind a) then climb f lvl a r' else None
+  | Some (a, TTrail :: TRP :: r') => climb f lvl (Node (LOp KTuple) [a]) r'
+  | Some (a, TComma :: r1) =>
+      match parse_elts f r1 with
+      | Some (more, TRP :: r') => climb f lvl (Node (LOp KTuple) (a :: more)) r'
+      | _ => None
+      end
+  | _ => None
+  end.
+Proof. reflexivity. Qed.
+
+Lemma parse_e_bracket : forall f lvl t r, starts_expr t = true \/ t = TStar ->
+  parse_e (S f) lvl (TLB :: t :: r) =
+  match parse_elts f (t :: r) with
+  | Some (es, TRB :: r') => climb f lvl (Node (LOp KList) es) r'
+  | _ => None
+  end.
+Proof. intros f lvl t r [H|H]; [destruct t; try discriminate H; reflexivity | subst; reflexivity]. Qed.
+
+Lemma parse_elt_expr : forall f t r, starts_expr t = true -> parse_elt (S f) (t :: r) = parse_e f 0 (t :: r).
+Proof. intros f t r H. destruct t; try discriminate H; reflexivity. Qed.
+
+Lemma parse_arg_expr : forall f t r, starts_expr t = true -> parse_arg (S f) (t :: r) = parse_e f 0 (t :: r).
+Proof. intros f t r H. destruct t; try discriminate H; reflexivity. Qed.
+
+Definition arg_start (t : tok) : bool := starts_expr t || match t with TStar | TDStar | TKw _ => true | _ => false end.
+
+Lemma parse_args_cons : forall f t r, arg_start t = true ->
+  parse_args (S f) (t :: r) =
+  match parse_arg f (t :: r) with
+  | Some (a, TRP :: r') => Some ([a], r')
+  | Some (a, TComma :: r1) =>
+      match parse_args f r1 with Some (more, r') => Some (a :: more, r') | None => None end
+  | _ => None
+  end.
+Proof. intros f t r H. destruct t; try discriminate H; reflexivity. Qed.
+
+(* ------------------------------------------------------------------ the statement for expressions, and what follows from it for a child *)
+
+Definition M (e : expr) : Prop :=
+  forall lvl rest v, lvl <= prec (ekind e) -> guard (rmin e) rest = true ->
+  Ev (fun f => climb f lvl e rest) v -> Ev (fun f => parse_e f lvl (print st e ++ rest)) v.
+
+Ltac fuel f Hf := intros f Hf; destruct f as [|f]; [lia|].
+
+(* a parenthesised expression is read as a group *)
+Lemma group_ok : forall c, good st c = true -> expr_kindb (ekind c) = true -> M c ->
+  forall lvl rest v, Ev (fun f => climb f lvl c rest) v -> Ev (fun f => parse_e f lvl (TLP :: print st c ++ TRP :: rest)) v.
+Proof.
+  intros c Hg Hk Hm lvl rest v Hv.
+  destruct (print_head c Hg Hk) as [t [r [E St]]].
+  assert (H0 : Ev (fun f => parse_e f 0 (print st c ++ TRP :: rest)) (c, TRP :: rest)).
+  { apply Hm; [lia|reflexivity|]. apply (Ev_climb_stops 0); [reflexivity|lia|lia]. }
+  destruct H0 as [n Hn]. destruct Hv as [m Hmv]. exists (S (S (Nat.max n m))).
+  fuel f Hf. rewrite E. simpl app. rewrite parse_e_paren by exact St.
+  destruct f as [|f]; [lia|]. rewrite parse_elt_expr by exact St.
+  rewrite E in Hn. simpl app in Hn. rewrite Hn by lia. rewrite Hk. apply Hmv. lia.
+Qed.
+
+Lemma child_lhs : forall k q c, good st c = true -> expr_kindb (ekind c) = true -> M c ->
+  forall lvl rest v,
+  (needs st k q (ekind c) = false -> lvl <= prec (ekind c) /\ guard (rmin c) rest = true) ->
+  Ev (fun f => climb f lvl c rest) v -> Ev (fun f => parse_e f lvl (pw k q c ++ rest)) v.
+Proof.
+  intros k q c Hg Hk Hm lvl rest v Hb Hv. unfold pw, wrap. destruct (needs st k q (ekind c)).
+  - simpl. rewrite <- app_assoc. simpl. apply group_ok; assumption.
+  - destruct (Hb eq_refl) as [H1 H2]. apply Hm; assumption.
+Qed.
+
+Lemma child_done : forall k q c, good st c = true -> expr_kindb (ekind c) = true -> M c ->
+  forall R rest,
+  (needs st k q (ekind c) = false -> R <= prec (ekind c) /\ guard (rmin c) rest = true) ->
+  guard (Nat.min R 13) rest = true ->
+  Ev (fun f => parse_e f R (pw k q c ++ rest)) (c, rest).
+Proof.
+  intros k q c Hg Hk Hm R rest Hb Hs. apply child_lhs; try assumption.
+  apply (Ev_climb_stops (Nat.min R 13)); [exact Hs|lia|lia].
+Qed.
+
+(* the same with the side conditions derived from the position *)
+Lemma child_at : forall k q c, good st c = true -> expr_kindb (ekind c) = true -> M c ->
+  child_ok st k q (ekind c) = true -> allowed k q (ekind c) = true ->
+  forall rest, guard (Nat.min (req k q) 13) rest = true ->
+  (needs st k q (ekind c) = false -> guard (lowopen (ekind c)) rest = true) ->
+  Ev (fun f => parse_e f (req k q) (pw k q c ++ rest)) (c, rest).
+Proof.
+  intros k q c Hg Hk Hm Hc Ha rest Hs Hl. apply child_done; try assumption.
+  intros Hn. split; [eapply bare_prec; eauto|].
+  eapply guard_mono; [exact (Hl Hn)|]. apply lowopen_le_rmin. exact Hg.
+Qed.
+
+(* a closing token, a comma, a colon ... after the child: nothing can be swallowed *)
+Lemma guard0 : forall n rest, guard 0 rest = true -> guard n rest = true.
+Proof. intros n rest H. eapply guard_mono; [exact H|lia]. Qed.
+
+Lemma child_at0 : forall k q c, good st c = true -> expr_kindb (ekind c) = true -> M c ->
+  child_ok st k q (ekind c) = true -> allowed k q (ekind c) = true ->
+  forall rest, guard 0 rest = true ->
+  Ev (fun f => parse_e f (req k q) (pw k q c ++ rest)) (c, rest).
+Proof. intros. apply child_at; try assumption; intros; apply guard0; assumption. Qed.
+
+
+(* ------------------------------------------------------------------ the statements for items *)
+
+Definition idx_follow (ts : list tok) : bool := match ts with TComma :: _ | TRB :: _ => true | _ => false end.
+Definition closer (ts : list tok) : bool := match ts with TRP :: _ | TRB :: _ => true | _ => false end.
+
+Lemma idx_follow_guard : forall ts, idx_follow ts = true -> guard 0 ts = true.
+Proof. intros [|t r] H; [reflexivity|]. destruct t; try discriminate H; reflexivity. Qed.
+Lemma closer_guard : forall ts, closer ts = true -> guard 0 ts = true.
+Proof. intros [|t r] H; [reflexivity|]. destruct t; try discriminate H; reflexivity. Qed.
+
+Definition ArgOK (e : expr) : Prop :=
+  forall rest, guard 0 rest = true -> Ev (fun f => parse_arg f (print st e ++ rest)) (e, rest).
+Definition EltOK (e : expr) : Prop :=
+  forall rest, guard 0 rest = true -> Ev (fun f => parse_elt f (print st e ++ rest)) (e, rest).
+Definition SItemOK (e : expr) : Prop :=
+  forall rest, idx_follow rest = true -> Ev (fun f => parse_sitem f (print st e ++ rest)) (e, rest).
+Definition IdxOK (e : expr) : Prop :=
+  forall rest, Ev (fun f => parse_index f (print st e ++ TRB :: rest)) (e, rest).
+Definition FieldOK (e : expr) : Prop :=
+  exists conv spec v W, e = Node (LFormatted conv spec) [v] /\ print st e = TFOpen :: W ++ [TFClose conv spec] /\
+  forall tail, Ev (fun f => parse_e f (req KFormatted 0) (W ++ TFClose conv spec :: tail)) (v, TFClose conv spec :: tail).
+
+Definition P (e : expr) : Prop :=
+  good st e = true ->
+  (expr_kindb (ekind e) = true -> M e) /\
+  (ekind e = KStarArg \/ ekind e = KKeyword -> ArgOK e) /\
+  (ekind e = KStarElt -> EltOK e) /\
+  (ekind e = KSlice -> SItemOK e) /\
+  (ekind e = KIdxTuple -> IdxOK e) /\
+  (ekind e = KFormatted -> FieldOK e).
+
+Lemma P_M : forall c, P c -> good st c = true -> expr_kindb (ekind c) = true -> M c.
+Proof. intros c Hp Hg Hk. destruct (Hp Hg) as [H _]. exact (H Hk). Qed.
+
+(* ------------------------------------------------------------------ one item of an argument list, a display, a subscript *)
+
+Lemma kind_item_cases : forall k c, (expr_kindb c || kind_eqb c k) = true -> expr_kindb c = true \/ (expr_kindb c = false /\ c = k).
+Proof.
+  intros k c H. destruct (expr_kindb c) eqn:E; [left; reflexivity|right]. simpl in H. apply kind_eqb_eq in H. split; [reflexivity|exact H].
+Qed.
+
+Lemma elt_done : forall k c, k = KTuple \/ k = KList -> P c -> good st c = true ->
+  allowed k 0 (ekind c) = true -> child_ok st k 0 (ekind c) = true ->
+  forall rest, guard 0 rest = true -> Ev (fun f => parse_elt f (pw k 0 c ++ rest)) (c, rest).
+Proof.
+  intros k c Hk Hp Hg Ha Hc rest Hr.
+  assert (Ha' : (expr_kindb (ekind c) || kind_eqb (ekind c) KStarElt) = true) by (destruct Hk; subst k; exact Ha).
+  destruct (kind_item_cases _ _ Ha') as [He|[He Hs]].
+  - destruct (pw_head k 0 c rest (fun _ => print_head c Hg He)) as [t [r [E St]]].
+    assert (H : Ev (fun f => parse_e f 0 (pw k 0 c ++ rest)) (c, rest)).
+    { assert (R0 : req k 0 = 0) by (destruct Hk; subst k; reflexivity).
+      pose proof (child_at0 k 0 c Hg He (P_M c Hp Hg He) Hc Ha rest Hr) as H. rewrite R0 in H. exact H. }
+    rewrite E in *. eapply Ev_step; [|exact H]. intros f. apply parse_elt_expr. exact St.
+  - unfold pw. rewrite (item_bare _ _ _ Hc He). simpl. destruct (Hp Hg) as [_ [_ [H _]]]. apply H; assumption.
+Qed.
+
+Lemma arg_done : forall c, P c -> good st c = true ->
+  allowed KCall 1 (ekind c) = true -> child_ok st KCall 1 (ekind c) = true ->
+  forall rest, guard 0 rest = true -> Ev (fun f => parse_arg f (pw KCall 1 c ++ rest)) (c, rest).
+Proof.
+  intros c Hp Hg Ha Hc rest Hr.
+  assert (Ha' : (expr_kindb (ekind c) || kind_eqb (ekind c) KStarArg || kind_eqb (ekind c) KKeyword) = true) by exact Ha.
+  destruct (expr_kindb (ekind c)) eqn:He.
+  - destruct (pw_head KCall 1 c rest (fun _ => print_head c Hg He)) as [t [r [E St]]].
+    assert (H : Ev (fun f => parse_e f 0 (pw KCall 1 c ++ rest)) (c, rest)).
+    { change 0 with (req KCall 1). apply child_at0; try assumption. apply P_M; assumption. }
+    rewrite E in *. eapply Ev_step; [|exact H]. intros f. apply parse_arg_expr. exact St.
+  - unfold pw. rewrite (item_bare _ _ _ Hc He). simpl. destruct (Hp Hg) as [_ [H _]]. apply H; [|assumption].
+    simpl in Ha'. apply orb_prop in Ha'. destruct Ha' as [H1|H1]; apply kind_eqb_eq in H1; auto.
+Qed.
+
+
+(* ------------------------------------------------------------------ subscript items and slices *)
+
+Lemma parse_sitem_expr : forall f t r a rest, starts_expr t = true ->
+  parse_e f 0 (t :: r) = Some (a, rest) -> idx_follow rest = true ->
+  parse_sitem (S f) (t :: r) = Some (a, rest).
+Proof.
+  intros f t r a rest Ht Hp Hr.
+  assert (E : parse_sitem (S f) (t :: r) =
+              match parse_e f 0 (t :: r) with
+              | Some (a, TColon :: r) => slice_after_lower (parse_e f) (Some a) r
+              | Some (a, r) => Some (a, r)
+              | None => None
+              end) by (destruct t; try discriminate Ht; reflexivity).
+  rewrite E, Hp. destruct rest as [|t' r']; [discriminate Hr|]. destruct t'; try discriminate Hr; reflexivity.
+Qed.
+
+Lemma sitem_expr_done : forall k q c, good st c = true -> expr_kindb (ekind c) = true -> M c ->
+  child_ok st k q (ekind c) = true -> allowed k q (ekind c) = true -> req k q = 0 ->
+  forall rest, idx_follow rest = true -> Ev (fun f => parse_sitem f (pw k q c ++ rest)) (c, rest).
+Proof.
+  intros k q c Hg He Hm Hc Ha R0 rest Hr.
+  destruct (pw_head k q c rest (fun _ => print_head c Hg He)) as [t [r [E St]]].
+  pose proof (child_at0 k q c Hg He Hm Hc Ha rest (idx_follow_guard _ Hr)) as H. rewrite R0 in H.
+  rewrite E in *. destruct H as [n Hn]. exists (S n). fuel f Hf.
+  apply parse_sitem_expr; [exact St| apply Hn; lia | exact Hr].
+Qed.
+
+(* a part of a slice, followed by a colon or by the end of the item *)
+Lemma slice_part : forall c, good st c = true -> expr_kindb (ekind c) = true -> M c ->
+  child_ok st KSlice 0 (ekind c) = true -> allowed KSlice 0 (ekind c) = true ->
+  forall rest, guard 0 rest = true -> Ev (fun f => parse_e f 0 (pw KSlice 0 c ++ rest)) (c, rest).
+Proof. intros c Hg He Hm Hc Ha rest Hr. exact (child_at0 KSlice 0 c Hg He Hm Hc Ha rest Hr). Qed.
+
+Lemma after_upper_step : forall c lo hi rest, good st c = true -> expr_kindb (ekind c) = true -> M c ->
+  child_ok st KSlice 0 (ekind c) = true -> allowed KSlice 0 (ekind c) = true -> idx_follow rest = true ->
+  Ev (fun f => slice_after_upper (parse_e f) lo hi (TColon :: pw KSlice 0 c ++ rest)) (mkslice lo hi (Some c), rest).
+Proof.
+  intros c lo hi rest Hg He Hm Hc Ha Hr.
+  destruct (slice_part c Hg He Hm Hc Ha rest (idx_follow_guard _ Hr)) as [n Hn].
+  exists n. intros f Hf. unfold slice_after_upper. change (req KSlice 0) with 0. rewrite Hn by lia. reflexivity.
+Qed.
+
+Lemma after_upper_nostep : forall lo hi rest f, idx_follow rest = true ->
+  slice_after_upper (parse_e f) lo hi rest = Some (mkslice lo hi None, rest).
+Proof.
+  intros lo hi rest f Hr. destruct rest as [|t r]; [discriminate Hr|]. destruct t; try discriminate Hr; reflexivity.
+Qed.
+
+(* the part of a slice after the first colon: upper bound and step as the flags say *)
+Definition SliceKid (c : expr) : Prop :=
+  good st c = true /\ expr_kindb (ekind c) = true /\ M c /\ child_ok st KSlice 0 (ekind c) = true /\ allowed KSlice 0 (ekind c) = true.
+
+Lemma after_lower_ok : forall lo (hi stp : option expr) rest,
+  (forall c, hi = Some c -> SliceKid c) -> (forall c, stp = Some c -> SliceKid c) -> idx_follow rest = true ->
+  Ev (fun f => slice_after_lower (parse_e f) lo
+                 (match hi with Some c => pw KSlice 0 c | None => [] end ++
+                  match stp with Some c => TColon :: pw KSlice 0 c | None => [] end ++ rest))
+     (mkslice lo hi stp, rest).
+Proof.
+  intros lo hi stp rest Hh Hs Hr.
+  assert (Tail : forall hi', Ev (fun f => slice_after_upper (parse_e f) lo hi'
+                   (match stp with Some c => TColon :: pw KSlice 0 c | None => [] end ++ rest)) (mkslice lo hi' stp, rest)).
+  { intros hi'. destruct stp as [s|].
+    - destruct (Hs s eq_refl) as [Hg [He [Hm [Hc Ha]]]]. simpl app. apply after_upper_step; assumption.
+    - simpl app. apply Ev_const. intros f. apply after_upper_nostep. exact Hr. }
+  assert (TailG : guard 0 (match stp with Some c => TColon :: pw KSlice 0 c | None => [] end ++ rest) = true).
+  { destruct stp; [reflexivity|]. simpl. apply idx_follow_guard. exact Hr. }
+  assert (TailS : exists t r, match stp with Some c => TColon :: pw KSlice 0 c | None => [] end ++ rest = t :: r /\ slice_stop t = true).
+  { destruct stp; simpl.
+    - eexists. eexists. split; reflexivity.
+    - destruct rest as [|t r]; [discriminate Hr|]. exists t, r. split; [reflexivity|]. destruct t; try discriminate Hr; reflexivity. }
+  destruct hi as [u|].
+  - destruct (Hh u eq_refl) as [Hg [He [Hm [Hc Ha]]]].
+    destruct (pw_head KSlice 0 u (match stp with Some c => TColon :: pw KSlice 0 c | None => [] end ++ rest) (fun _ => print_head u Hg He)) as [t [r [E St]]].
+    destruct (slice_part u Hg He Hm Hc Ha _ TailG) as [n Hn]. destruct (Tail (Some u)) as [m Hmv].
+    exists (Nat.max n m). intros f Hf. unfold slice_after_lower. rewrite E.
+    assert (slice_stop t = false) as -> by (destruct t; try discriminate St; reflexivity).
+    rewrite <- E. change (req KSlice 0) with 0. rewrite Hn by lia. apply Hmv. lia.
+  - simpl app. destruct TailS as [t [r [E Ss]]]. destruct (Tail None) as [m Hmv].
+    exists m. intros f Hf. unfold slice_after_lower. rewrite E, Ss. rewrite <- E. apply Hmv. exact Hf.
+Qed.
+
+
+Lemma child_at_r : forall k q c, good st c = true -> expr_kindb (ekind c) = true -> M c ->
+  child_ok st k q (ekind c) = true -> allowed k q (ekind c) = true ->
+  forall rest, guard (Nat.min (req k q) 13) rest = true ->
+  (needs st k q (ekind c) = false -> guard (rmin c) rest = true) ->
+  Ev (fun f => parse_e f (req k q) (pw k q c ++ rest)) (c, rest).
+Proof.
+  intros k q c Hg Hk Hm Hc Ha rest Hs Hl. apply child_done; try assumption.
+  intros Hn. split; [eapply bare_prec; eauto|exact (Hl Hn)].
+Qed.
+
+Lemma sitem_done : forall k q c, (k = KIdxTuple /\ q = 0) \/ (k = KSubscript /\ q = 1) -> ekind c <> KIdxTuple ->
+  P c -> good st c = true -> allowed k q (ekind c) = true -> child_ok st k q (ekind c) = true ->
+  forall rest, idx_follow rest = true -> Ev (fun f => parse_sitem f (pw k q c ++ rest)) (c, rest).
+Proof.
+  intros k q c Hk Hni Hp Hg Ha Hc rest Hr.
+  destruct (expr_kindb (ekind c)) eqn:He.
+  - apply sitem_expr_done; try assumption; [apply P_M; assumption|]. destruct Hk as [[-> ->]|[-> ->]]; reflexivity.
+  - unfold pw. rewrite (item_bare _ _ _ Hc He). simpl. destruct (Hp Hg) as [_ [_ [_ [H _]]]]. apply H; [|assumption].
+    destruct Hk as [[-> ->]|[-> ->]]; unfold allowed in Ha; simpl in Ha; rewrite He in Ha; simpl in Ha.
+    + apply kind_eqb_eq in Ha. exact Ha.
+    + apply orb_prop in Ha. destruct Ha as [Ha|Ha]; apply kind_eqb_eq in Ha; [exact Ha|contradiction].
+Qed.
+
+(* ------------------------------------------------------------------ lists of items *)
+
+Lemma sep_by_cons2 : forall sep w w' ws rest, sep_by sep (w :: w' :: ws) ++ rest = w ++ sep :: (sep_by sep (w' :: ws) ++ rest).
+Proof. intros. simpl. rewrite <- !app_assoc. simpl. rewrite <- !app_assoc. reflexivity. Qed.
+
+Lemma sep_by_one : forall sep w rest, sep_by sep [w] ++ rest = w ++ rest.
+Proof. intros. simpl. rewrite app_nil_r. reflexivity. Qed.
+
+Lemma parse_elts_S : forall f ts, parse_elts (S f) ts =
+  match parse_elt f ts with
+  | Some (a, TComma :: r1) => match parse_elts f r1 with Some (more, r) => Some (a :: more, r) | None => None end
+  | Some (a, r) => Some ([a], r)
+  | None => None
+  end.
+Proof. reflexivity. Qed.
+
+Lemma parse_sitems_S : forall f ts, parse_sitems (S f) ts =
+  match parse_sitem f ts with
+  | Some (a, TComma :: r1) => match parse_sitems f r1 with Some (more, r) => Some (a :: more, r) | None => None end
+  | Some (a, r) => Some ([a], r)
+  | None => None
+  end.
+Proof. reflexivity. Qed.
+
+Lemma parse_index_S : forall f ts, parse_index (S f) ts =
+  match parse_sitem f ts with
+  | Some (a, TRB :: r) => Some (a, r)
+  | Some (a, TComma :: r1) =>
+      match parse_sitems f r1 with
+      | Some (more, TRB :: r) => Some (Node (LOp KIdxTuple) (a :: more), r)
+      | _ => None
+      end
+  | _ => None
+  end.
+Proof. reflexivity. Qed.
+
+Lemma elts_ok : forall k, k = KTuple \/ k = KList -> forall cs, cs <> [] ->
+  Forall P cs -> Forall (fun c => good st c = true) cs ->
+  Forall (fun c => allowed k 0 (ekind c) = true) cs -> Forall (fun c => child_ok st k 0 (ekind c) = true) cs ->
+  forall rest, closer rest = true -> Ev (fun f => parse_elts f (sep_by TComma (map (pw k 0) cs) ++ rest)) (cs, rest).
+Proof.
+  intros k Hk cs. induction cs as [|c cs IH]; intros Hne HP Hg Ha Hc rest Hr; [congruence|].
+  inversion HP as [|? ? HP1 HP2]; subst. inversion Hg as [|? ? Hg1 Hg2]; subst.
+  inversion Ha as [|? ? Ha1 Ha2]; subst. inversion Hc as [|? ? Hc1 Hc2]; subst.
+  destruct cs as [|c' cs].
+  - simpl map. rewrite sep_by_one.
+    destruct (elt_done k c Hk HP1 Hg1 Ha1 Hc1 rest (closer_guard _ Hr)) as [n Hn].
+    exists (S n). fuel f Hf. rewrite parse_elts_S, Hn by lia.
+    destruct rest as [|t r]; [discriminate Hr|]. destruct t; try discriminate Hr; reflexivity.
+  - change (map (pw k 0) (c :: c' :: cs)) with (pw k 0 c :: pw k 0 c' :: map (pw k 0) cs). rewrite sep_by_cons2.
+    assert (Hne' : c' :: cs <> []) by discriminate.
+    destruct (IH Hne' HP2 Hg2 Ha2 Hc2 rest Hr) as [m Hmv].
+    destruct (elt_done k c Hk HP1 Hg1 Ha1 Hc1 (TComma :: sep_by TComma (map (pw k 0) (c' :: cs)) ++ rest) eq_refl) as [n Hn].
+    exists (S (Nat.max n m)). fuel f Hf. rewrite parse_elts_S, Hn by lia.
+    change (map (pw k 0) (c' :: cs)) with (pw k 0 c' :: map (pw k 0) cs) in Hmv. rewrite Hmv by lia. reflexivity.
+Qed.
+
+Lemma sitems_ok : forall cs, cs <> [] ->
+  Forall P cs -> Forall (fun c => good st c = true) cs ->
+  Forall (fun c => allowed KIdxTuple 0 (ekind c) = true) cs -> Forall (fun c => child_ok st KIdxTuple 0 (ekind c) = true) cs ->
+  forall rest, Ev (fun f => parse_sitems f (sep_by TComma (map (pw KIdxTuple 0) cs) ++ TRB :: rest)) (cs, TRB :: rest).
+Proof.
+  induction cs as [|c cs IH]; intros Hne HP Hg Ha Hc rest; [congruence|].
+  inversion HP as [|? ? HP1 HP2]; subst. inversion Hg as [|? ? Hg1 Hg2]; subst.
+  inversion Ha as [|? ? Ha1 Ha2]; subst. inversion Hc as [|? ? Hc1 Hc2]; subst.
+  assert (Hni : ekind c <> KIdxTuple).
+  { intros E. rewrite E in Ha1. discriminate Ha1. }
+  destruct cs as [|c' cs].
+  - simpl map. rewrite sep_by_one.
+    destruct (sitem_done KIdxTuple 0 c (or_introl (conj eq_refl eq_refl)) Hni HP1 Hg1 Ha1 Hc1 (TRB :: rest) eq_refl) as [n Hn].
+    exists (S n). fuel f Hf. rewrite parse_sitems_S, Hn by lia. reflexivity.
+  - change (map (pw KIdxTuple 0) (c :: c' :: cs)) with (pw KIdxTuple 0 c :: pw KIdxTuple 0 c' :: map (pw KIdxTuple 0) cs). rewrite sep_by_cons2.
+    assert (Hne' : c' :: cs <> []) by discriminate.
+    destruct (IH Hne' HP2 Hg2 Ha2 Hc2 rest) as [m Hmv].
+    destruct (sitem_done KIdxTuple 0 c (or_introl (conj eq_refl eq_refl)) Hni HP1 Hg1 Ha1 Hc1
+                (TComma :: sep_by TComma (map (pw KIdxTuple 0) (c' :: cs)) ++ TRB :: rest) eq_refl) as [n Hn].
+    exists (S (Nat.max n m)). fuel f Hf. rewrite parse_sitems_S, Hn by lia.
+    change (map (pw KIdxTuple 0) (c' :: cs)) with (pw KIdxTuple 0 c' :: map (pw KIdxTuple 0) cs) in Hmv. rewrite Hmv by lia. reflexivity.
+Qed.
+
+
+Lemma item_head : forall c, good st c = true -> ekind c = KStarArg \/ ekind c = KStarElt \/ ekind c = KKeyword ->
+  exists t r, print st c = t :: r /\ match t with TStar | TDStar | TKw _ => true | _ => false end = true.
+Proof.
+  intros [l cs] Hg Hk. destruct (good_node _ _ Hg) as [Har _]. rewrite print_node. simpl in Hk.
+  destruct l; simpl in Hk; try (destruct Hk as [Hk|[Hk|Hk]]; discriminate Hk).
+  - destruct k; try (destruct Hk as [Hk|[Hk|Hk]]; discriminate Hk); simpl in Har; try discriminate Har;
+      cbn; eexists; eexists; split; reflexivity.
+  - destruct name; cbn; eexists; eexists; split; reflexivity.
+Qed.
+
+
+Lemma arg_head : forall c rest, good st c = true -> allowed KCall 1 (ekind c) = true ->
+  exists t r, pw KCall 1 c ++ rest = t :: r /\ arg_start t = true.
+Proof.
+  intros c rest Hg Ha.
+  destruct (expr_kindb (ekind c)) eqn:He.
+  - destruct (pw_head KCall 1 c rest (fun _ => print_head c Hg He)) as [t [r [E St]]]. exists t, r. split; [exact E|].
+    unfold arg_start. rewrite St. reflexivity.
+  - assert (Hk : ekind c = KStarArg \/ ekind c = KStarElt \/ ekind c = KKeyword).
+    { unfold allowed in Ha. simpl in Ha. rewrite He in Ha. simpl in Ha. apply orb_prop in Ha. destruct Ha as [Ha|Ha]; apply kind_eqb_eq in Ha; auto. }
+    destruct (item_head c Hg Hk) as [t [r [E Ht]]]. unfold pw, wrap.
+    destruct (needs st KCall 1 (ekind c)).
+    + eexists. eexists. split; reflexivity.
+    + rewrite E. exists t, (r ++ rest). split; [reflexivity|]. unfold arg_start. destruct t; try discriminate Ht; reflexivity.
+Qed.
+
+Lemma args_ok : forall cs,
+  Forall P cs -> Forall (fun c => good st c = true) cs ->
+  Forall (fun c => allowed KCall 1 (ekind c) = true) cs -> Forall (fun c => child_ok st KCall 1 (ekind c) = true) cs ->
+  forall rest, Ev (fun f => parse_args f (sep_by TComma (map (pw KCall 1) cs) ++ TRP :: rest)) (cs, rest).
+Proof.
+  induction cs as [|c cs IH]; intros HP Hg Ha Hc rest.
+  - apply Ev_const. intros f. reflexivity.
+  - inversion HP as [|? ? HP1 HP2]; subst. inversion Hg as [|? ? Hg1 Hg2]; subst.
+    inversion Ha as [|? ? Ha1 Ha2]; subst. inversion Hc as [|? ? Hc1 Hc2]; subst.
+    destruct cs as [|c' cs].
+    + simpl map. rewrite sep_by_one.
+      destruct (arg_head c (TRP :: rest) Hg1 Ha1) as [t [r [E St]]].
+      destruct (arg_done c HP1 Hg1 Ha1 Hc1 (TRP :: rest) eq_refl) as [n Hn].
+      exists (S n). fuel f Hf. rewrite E in *. rewrite parse_args_cons by exact St. rewrite Hn by lia. reflexivity.
+    + change (map (pw KCall 1) (c :: c' :: cs)) with (pw KCall 1 c :: pw KCall 1 c' :: map (pw KCall 1) cs). rewrite sep_by_cons2.
+      destruct (IH HP2 Hg2 Ha2 Hc2 rest) as [m Hmv].
+      change (map (pw KCall 1) (c' :: cs)) with (pw KCall 1 c' :: map (pw KCall 1) cs) in Hmv.
+      set (X := sep_by TComma (pw KCall 1 c' :: map (pw KCall 1) cs) ++ TRP :: rest) in *.
+      destruct (arg_head c (TComma :: X) Hg1 Ha1) as [t [r [E St]]].
+      destruct (arg_done c HP1 Hg1 Ha1 Hc1 (TComma :: X) eq_refl) as [n Hn].
+      exists (S (Nat.max n m)). fuel f Hf. rewrite E in *. rewrite parse_args_cons by exact St. rewrite Hn by lia.
+      rewrite Hmv by lia. reflexivity.
+Qed.
+
+(* ------------------------------------------------------------------ chains: a or b or c, a < b < c *)
+
+Lemma bool_levels : forall k, is_bool k = true -> prec k < req k 0 /\ req k 0 <= 13 /\ follow0 k = prec k /\ last_pos k = 0.
+Proof. intros k H. destruct k; try discriminate H; simpl; repeat split; lia. Qed.
+
+Lemma bool_chain_step : forall f k r, bool_chain (S f) k (TBool k :: r) =
+  match parse_e f (req k 0) r with
+  | Some (b, r1) => match bool_chain f k r1 with Some (more, r2) => Some (b :: more, r2) | None => None end
+  | None => None
+  end.
+Proof. intros. simpl. rewrite kind_eqb_refl. reflexivity. Qed.
+
+Lemma bool_chain_stop : forall f k rest, is_bool k = true -> guard (prec k) rest = true -> bool_chain (S f) k rest = Some ([], rest).
+Proof.
+  intros f k rest Hk G. destruct rest as [|t r]; [reflexivity|]. destruct t; try reflexivity.
+  simpl. destruct (kind_eqb k k0) eqn:E; [|reflexivity]. apply kind_eqb_eq in E. subst k0.
+  simpl in G. rewrite Hk in G. rewrite Nat.ltb_irrefl in G. discriminate G.
+Qed.
+
+(* the guard a child needs when it is followed by the operator of its own parent *)
+Lemma follow0_guard : forall k c t r,
+  (is_bool k || is_binary k || kind_eqb k KCompare || kind_eqb k KIfExp || kind_eqb k KAttribute || kind_eqb k KCall || kind_eqb k KSubscript) = true ->
+  follow_level t = Some (follow0 k) ->
+  child_ok st k 0 (ekind c) = true -> allowed k 0 (ekind c) = true -> needs st k 0 (ekind c) = false ->
+  guard (lowopen (ekind c)) (t :: r) = true.
+Proof.
+  intros k c t r Hk Ht Hc Ha Hn. simpl. rewrite Ht.
+  pose proof (follow0_facts k (ekind c)) as F. rewrite Hk, Ha in F.
+  pose proof (bare_prec _ _ _ Hc Ha Hn) as Hb. apply Nat.leb_le in Hb. rewrite Hb in F. exact F.
+Qed.
+
+Lemma bool_chain_ok : forall k, is_bool k = true -> forall cs,
+  Forall P cs -> Forall (fun c => good st c = true) cs ->
+  Forall (fun c => allowed k 0 (ekind c) = true) cs -> Forall (fun c => child_ok st k 0 (ekind c) = true) cs ->
+  forall rest, guard (prec k) rest = true -> (cs <> [] -> guard (lastv k cs) rest = true) ->
+  Ev (fun f => bool_chain f k (sep_tail (TBool k) (map (pw k 0) cs) ++ rest)) (cs, rest).
+Proof.
+  intros k Hk. destruct (bool_levels k Hk) as [L1 [L2 [L3 L4]]].
+  induction cs as [|c cs IH]; intros HP Hg Ha Hc rest Gr Gl.
+  - apply Ev_const. intros f. apply bool_chain_stop; assumption.
+  - inversion HP as [|? ? HP1 HP2]; subst. inversion Hg as [|? ? Hg1 Hg2]; subst.
+    inversion Ha as [|? ? Ha1 Ha2]; subst. inversion Hc as [|? ? Hc1 Hc2]; subst.
+    assert (He : expr_kindb (ekind c) = true).
+    { eapply first_expr; [exact Ha1|]. destruct k; try discriminate Hk; reflexivity. }
+    simpl map. simpl sep_tail. cbn [app]. rewrite <- app_assoc.
+    set (rest1 := sep_tail (TBool k) (map (pw k 0) cs) ++ rest).
+    assert (H1 : Ev (fun f => parse_e f (req k 0) (pw k 0 c ++ rest1)) (c, rest1)).
+    { destruct cs as [|c' cs].
+      - subst rest1. simpl. apply child_at_r; try assumption; [apply P_M; assumption| |].
+        + eapply guard_mono; [exact Gr|lia].
+        + intros Hn. specialize (Gl ltac:(discriminate)). simpl in Gl. rewrite L4, Hn in Gl. exact Gl.
+      - subst rest1. simpl. apply child_at; try assumption; [apply P_M; assumption| |].
+        + simpl. rewrite Hk. apply Nat.ltb_lt. lia.
+        + intros Hn. eapply follow0_guard; eauto; [rewrite Hk; reflexivity|]. simpl. rewrite Hk, L3. reflexivity. }
+    assert (H2 : Ev (fun f => bool_chain f k rest1) (cs, rest)).
+    { subst rest1. apply IH; try assumption. intros Hne. specialize (Gl ltac:(discriminate)).
+      destruct cs as [|c' cs]; [congruence|exact Gl]. }
+    destruct H1 as [n Hn]. destruct H2 as [m Hmv]. exists (S (Nat.max n m)). fuel f Hf.
+    rewrite bool_chain_step, Hn by lia. rewrite Hmv by lia. reflexivity.
+Qed.
+
+
+Lemma cmp_chain_stop : forall f rest, guard (prec KCompare) rest = true -> cmp_chain (S f) rest = Some ([], [], rest).
+Proof.
+  intros f rest G. destruct rest as [|t r]; [reflexivity|]. destruct t; try reflexivity. simpl in G. discriminate G.
+Qed.
+
+Lemma cmp_chain_ok : forall cs ops, length ops = length cs ->
+  Forall P cs -> Forall (fun c => good st c = true) cs ->
+  Forall (fun c => allowed KCompare 0 (ekind c) = true) cs -> Forall (fun c => child_ok st KCompare 0 (ekind c) = true) cs ->
+  forall rest, guard (prec KCompare) rest = true -> (cs <> [] -> guard (lastv KCompare cs) rest = true) ->
+  Ev (fun f => cmp_chain f (cmp_tail ops (map (pw KCompare 0) cs) ++ rest)) (ops, cs, rest).
+Proof.
+  induction cs as [|c cs IH]; intros ops Hl HP Hg Ha Hc rest Gr Gl.
+  - destruct ops; [|discriminate Hl]. apply Ev_const. intros f. apply cmp_chain_stop. exact Gr.
+  - destruct ops as [|o ops]; [discriminate Hl|]. simpl in Hl. injection Hl as Hl.
+    inversion HP as [|? ? HP1 HP2]; subst. inversion Hg as [|? ? Hg1 Hg2]; subst.
+    inversion Ha as [|? ? Ha1 Ha2]; subst. inversion Hc as [|? ? Hc1 Hc2]; subst.
+    assert (He : expr_kindb (ekind c) = true) by (eapply first_expr; [exact Ha1|reflexivity]).
+    simpl map. simpl cmp_tail. cbn [app]. rewrite <- app_assoc.
+    set (rest1 := cmp_tail ops (map (pw KCompare 0) cs) ++ rest).
+    assert (H1 : Ev (fun f => parse_e f (req KCompare 0) (pw KCompare 0 c ++ rest1)) (c, rest1)).
+    { destruct cs as [|c' cs].
+      - destruct ops; [|discriminate Hl]. subst rest1. simpl. apply (child_at_r KCompare 0 c); try assumption; [apply P_M; assumption| |].
+        + eapply guard_mono; [exact Gr|simpl; lia].
+        + intros Hn. specialize (Gl ltac:(discriminate)). simpl in Gl. rewrite Hn in Gl. exact Gl.
+      - destruct ops as [|o' ops]; [discriminate Hl|]. subst rest1. simpl. apply (child_at KCompare 0 c); try assumption; [apply P_M; assumption| |].
+        + reflexivity.
+        + intros Hn. eapply follow0_guard; eauto; reflexivity. }
+    assert (H2 : Ev (fun f => cmp_chain f rest1) (ops, cs, rest)).
+    { subst rest1. apply IH; try assumption. intros Hne. specialize (Gl ltac:(discriminate)).
+      destruct cs as [|c' cs]; [congruence|exact Gl]. }
+    destruct H1 as [n Hn]. destruct H2 as [m Hmv]. exists (S (Nat.max n m)). fuel f Hf.
+    simpl. change (req KCompare 0) with 5 in Hn. rewrite Hn by lia. rewrite Hmv by lia. reflexivity.
+Qed.
+
+(* ------------------------------------------------------------------ f-string parts *)
+
+Lemma fparts_ok : forall fs ls, length ls = length fs ->
+  Forall P fs -> Forall (fun c => good st c = true) fs ->
+  Forall (fun c => allowed KJoined 0 (ekind c) = true) fs -> Forall (fun c => child_ok st KJoined 0 (ekind c) = true) fs ->
+  forall rest, Ev (fun f => parse_fparts f (fparts (map (pw KJoined 0) fs) ls ++ TFEnd :: rest)) (ls, fs, rest).
+Proof.
+  induction fs as [|c fs IH]; intros ls Hl HP Hg Ha Hc rest.
+  - destruct ls; [|discriminate Hl]. apply Ev_const. intros f. reflexivity.
+  - destruct ls as [|l ls]; [discriminate Hl|]. simpl in Hl. injection Hl as Hl.
+    inversion HP as [|? ? HP1 HP2]; subst. inversion Hg as [|? ? Hg1 Hg2]; subst.
+    inversion Ha as [|? ? Ha1 Ha2]; subst. inversion Hc as [|? ? Hc1 Hc2]; subst.
+    assert (Ek : ekind c = KFormatted).
+    { unfold allowed in Ha1. simpl in Ha1. apply kind_eqb_eq in Ha1. exact Ha1. }
+    assert (Hn : needs st KJoined 0 (ekind c) = false) by (apply (item_bare _ _ _ Hc1); rewrite Ek; reflexivity).
+    destruct (HP1 Hg1) as [_ [_ [_ [_ [_ HF]]]]]. destruct (HF Ek) as [conv [spec [v [W [Ec [Ep Hv]]]]]].
+    simpl map. simpl fparts. unfold pw at 1. rewrite Hn. simpl wrap. rewrite Ep. cbn [app]. rewrite <- !app_assoc. cbn [app].
+    set (rest1 := fparts (map (pw KJoined 0) fs) ls ++ TFEnd :: rest).
+    destruct (Hv (TFLit l :: rest1)) as [n Hnv]. destruct (IH ls Hl HP2 Hg2 Ha2 Hc2 rest) as [m Hmv].
+    exists (S (Nat.max n m)). fuel f Hf. simpl. change (req KFormatted 0) with 0 in Hnv. rewrite Hnv by lia.
+    fold rest1 in Hmv. rewrite Hmv by lia. rewrite Ec. reflexivity.
+Qed.
+
+
+(* ------------------------------------------------------------------ the induction, one node kind at a time *)
+
+Ltac vac :=
+  let H := fresh "Hv" in
+  intros H; simpl in H;
+  first [ discriminate H | subst; simpl in *; discriminate | destruct H as [H|H]; first [discriminate H | subst; simpl in *; discriminate] ].
+
+Ltac kids1 c Hal Hco Hgs IH :=
+  simpl in Hal, Hco; apply andb_prop in Hal; destruct Hal as [Hal _]; apply andb_prop in Hco; destruct Hco as [Hco _];
+  inversion Hgs as [|? ? Hg1 _]; subst; inversion IH as [|? ? IH1 _]; subst.
+
+Lemma case_name : forall s cs, Forall P cs -> P (Node (LName s) cs).
+Proof.
+  intros s cs IH Hg. destruct (good_node _ _ Hg) as [Har _]. destruct cs; [|discriminate Har].
+  split; [|repeat split; vac]. intros _ lvl rest v Hl G Hv. eapply Ev_step; [|exact Hv]. intros f. reflexivity.
+Qed.
+
+Lemma case_const : forall s cs, Forall P cs -> P (Node (LConst s) cs).
+Proof.
+  intros s cs IH Hg. destruct (good_node _ _ Hg) as [Har _]. destruct cs; [|discriminate Har].
+  split; [|repeat split; vac]. intros _ lvl rest v Hl G Hv. eapply Ev_step; [|exact Hv]. intros f. reflexivity.
+Qed.
+
+Lemma unary_levels : forall k, is_unary k = true ->
+  open_level k = Some (req k 0) /\ req k 0 <= 13 /\ last_pos k = 0 /\ pos_of k 0 = 0 /\ expr_kindb k = true /\ is_bool k = false
+  /\ (kind_eqb k KTuple || kind_eqb k KList || kind_eqb k KIdxTuple || kind_eqb k KJoined) = false.
+Proof. intros k H. destruct k; try discriminate H; simpl; repeat split; lia. Qed.
+
+Lemma case_unary : forall k cs, is_unary k = true -> Forall P cs -> P (Node (LOp k) cs).
+Proof.
+  intros k cs Hu IH Hg. destruct (good_node _ _ Hg) as [Har [Hal [Hco [Hgs _]]]].
+  destruct (unary_levels k Hu) as [Lo [L13 [Llp [Lp0 [Lek [Lb Lt]]]]]].
+  simpl in Har. rewrite Lb, Hu in Har. destruct cs as [|c [|c' cs]]; try discriminate Har.
+  simpl kind_of in *. kids1 c Hal Hco Hgs IH. rewrite Lp0 in Hal, Hco.
+  assert (He : expr_kindb (ekind c) = true) by (eapply first_expr; eauto).
+  split; [|repeat split; vac]. intros _ lvl rest v Hl G Hv. simpl ekind in Hl.
+  rewrite print_node. simpl kind_of. rewrite wrap_children_cons. unfold layout. rewrite Lb, Hu. rewrite Lp0. cbn [wrap_children concat app].
+  rewrite app_nil_r.
+  rewrite rmin_node in G. simpl kind_of in G. rewrite Lo in G. destruct (guard_min _ _ _ G) as [G1 G2]. simpl in G2. rewrite Llp in G2.
+  assert (H1 : Ev (fun f => parse_e f (req k 0) (pw k 0 c ++ rest)) (c, rest)).
+  { apply (child_at_r k 0 c Hg1 He (P_M c IH1 Hg1 He) Hco Hal).
+    - eapply guard_mono; [exact G1|lia].
+    - intros Hn. rewrite Hn in G2. exact G2. }
+  destruct H1 as [n Hn]. destruct Hv as [m Hmv]. exists (S (Nat.max n m)). fuel f Hf.
+  rewrite parse_e_un by assumption. rewrite Hn by lia. apply Hmv. lia.
+Qed.
+
+Lemma case_lambda : forall args cs, Forall P cs -> P (Node (LLambda args) cs).
+Proof.
+  intros args cs IH Hg. destruct (good_node _ _ Hg) as [Har [Hal [Hco [Hgs _]]]].
+  destruct cs as [|c [|c' cs]]; try discriminate Har.
+  simpl kind_of in *. kids1 c Hal Hco Hgs IH. change (pos_of KLambda 0) with 0 in *.
+  assert (He : expr_kindb (ekind c) = true) by (eapply first_expr; eauto).
+  split; [|repeat split; vac]. intros _ lvl rest v Hl G Hv. simpl ekind in Hl.
+  rewrite print_node. simpl kind_of. rewrite wrap_children_cons. cbn [layout wrap_children concat app]. change (pos_of KLambda 0) with 0.
+  rewrite app_nil_r.
+  rewrite rmin_node in G. simpl kind_of in G. change (open_level KLambda) with (Some 0) in G. destruct (guard_min _ _ _ G) as [G1 G2]. simpl in G2.
+  assert (H1 : Ev (fun f => parse_e f (req KLambda 0) (pw KLambda 0 c ++ rest)) (c, rest)).
+  { apply (child_at_r KLambda 0 c Hg1 He (P_M c IH1 Hg1 He) Hco Hal).
+    - exact G1.
+    - intros Hn. rewrite Hn in G2. exact G2. }
+  destruct H1 as [n Hn]. destruct Hv as [m Hmv]. exists (S (Nat.max n m)). fuel f Hf.
+  rewrite parse_e_lambda by assumption. rewrite Hn by lia. apply Hmv. lia.
+Qed.
+
+Lemma case_attribute : forall name cs, Forall P cs -> P (Node (LAttribute name) cs).
+Proof.
+  intros name cs IH Hg. destruct (good_node _ _ Hg) as [Har [Hal [Hco [Hgs _]]]].
+  destruct cs as [|c [|c' cs]]; try discriminate Har.
+  simpl kind_of in *. kids1 c Hal Hco Hgs IH. change (pos_of KAttribute 0) with 0 in *.
+  assert (He : expr_kindb (ekind c) = true) by (eapply first_expr; eauto).
+  split; [|repeat split; vac]. intros _ lvl rest v Hl G Hv. simpl ekind in Hl.
+  rewrite print_node. simpl kind_of. rewrite wrap_children_cons. cbn [layout wrap_children concat app]. change (pos_of KAttribute 0) with 0.
+  rewrite app_nil_r. rewrite <- app_assoc. cbn [app].
+  apply (child_lhs KAttribute 0 c Hg1 He (P_M c IH1 Hg1 He)).
+  - intros Hn. split; [pose proof (bare_prec _ _ _ Hco Hal Hn) as Hb; simpl in Hb, Hl; lia|].
+    eapply guard_mono; [|apply lowopen_le_rmin; exact Hg1]. eapply follow0_guard; eauto; reflexivity.
+  - eapply Ev_step; [|exact Hv]. intros f. reflexivity.
+Qed.
+
+
+Lemma binary_levels : forall k, is_binary k = true ->
+  open_level k = Some (req k 1) /\ req k 1 <= 13 /\ last_pos k = 1 /\ pos_of k 0 = 0 /\ pos_of k 1 = 1 /\ expr_kindb k = true
+  /\ is_bool k = false /\ is_unary k = false /\ prec k <= req k 0 /\ follow0 k = prec k
+  /\ (kind_eqb k KTuple || kind_eqb k KList || kind_eqb k KIdxTuple || kind_eqb k KJoined) = false
+  /\ (kind_eqb k KCall || kind_eqb k KSubscript) = false.
+Proof. intros k H. destruct k; try discriminate H; simpl; repeat split; lia. Qed.
+
+Lemma second_expr : forall k c, allowed k 1 c = true -> (kind_eqb k KCall || kind_eqb k KSubscript) = false -> expr_kindb c = true.
+Proof. intros k c Ha Hk. destruct (allowed_expr_facts k c) as [_ [F _]]. rewrite Ha, Hk in F. exact F. Qed.
+
+Lemma third_expr : forall k c, allowed k 2 c = true -> expr_kindb c = true.
+Proof. intros k c Ha. destruct (allowed_expr_facts k c) as [_ [_ F]]. rewrite Ha in F. exact F. Qed.
+
+Lemma case_binary : forall k cs, is_binary k = true -> Forall P cs -> P (Node (LOp k) cs).
+Proof.
+  intros k cs Hb IH Hg. destruct (good_node _ _ Hg) as [Har [Hal [Hco [Hgs _]]]].
+  destruct (binary_levels k Hb) as [Lo [L13 [Llp [Lp0 [Lp1 [Lek [Lbo [Lun [Lpr [Lf0 [Lt Lc]]]]]]]]]]].
+  simpl in Har. rewrite Lbo, Lun, Hb in Har. destruct cs as [|a [|b [|c' cs]]]; try discriminate Har.
+  simpl kind_of in *. simpl in Hal, Hco. rewrite Lp0, Lp1 in Hal, Hco.
+  apply andb_prop in Hal. destruct Hal as [Ha0 Hal]. apply andb_prop in Hal. destruct Hal as [Ha1 _].
+  apply andb_prop in Hco. destruct Hco as [Hc0 Hco]. apply andb_prop in Hco. destruct Hco as [Hc1 _].
+  inversion Hgs as [|? ? Hg0 Hgs']; subst. inversion Hgs' as [|? ? Hg1 _]; subst.
+  inversion IH as [|? ? IH0 IH']; subst. inversion IH' as [|? ? IH1 _]; subst.
+  assert (He0 : expr_kindb (ekind a) = true) by (eapply first_expr; eauto).
+  assert (He1 : expr_kindb (ekind b) = true) by (eapply second_expr; eauto).
+  split; [|repeat split; vac]. intros _ lvl rest v Hl G Hv. simpl ekind in Hl.
+  rewrite print_node. simpl kind_of. rewrite !wrap_children_cons. unfold layout. rewrite Lbo, Lun, Hb. rewrite Lp0, Lp1.
+  cbn [wrap_children sep_by sep_tail]. rewrite app_nil_r. rewrite <- app_assoc. cbn [app].
+  rewrite rmin_node in G. simpl kind_of in G. rewrite Lo in G. destruct (guard_min _ _ _ G) as [G1 G2]. simpl in G2. rewrite Llp in G2.
+  apply (child_lhs k 0 a Hg0 He0 (P_M a IH0 Hg0 He0)).
+  - intros Hn. split; [pose proof (bare_prec _ _ _ Hc0 Ha0 Hn) as Hbp; lia|].
+    eapply guard_mono; [|apply lowopen_le_rmin; exact Hg0]. eapply follow0_guard; eauto.
+    + rewrite Hb. destruct (is_bool k); reflexivity.
+    + simpl. rewrite Hb, Lf0. reflexivity.
+  - assert (H1 : Ev (fun f => parse_e f (req k 1) (pw k 1 b ++ rest)) (b, rest)).
+    { apply (child_at_r k 1 b Hg1 He1 (P_M b IH1 Hg1 He1) Hc1 Ha1).
+      - eapply guard_mono; [exact G1|lia].
+      - intros Hn. rewrite Hn in G2. exact G2. }
+    destruct H1 as [n Hn]. destruct Hv as [m Hmv]. exists (S (Nat.max n m)). fuel f Hf.
+    simpl. rewrite Hb. apply Nat.leb_le in Hl. rewrite Hl. simpl. rewrite Hn by lia. apply Hmv. lia.
+Qed.
+
+Lemma pos_of_bool : forall k j, is_bool k = true -> pos_of k j = 0.
+Proof. intros k j H. destruct k; try discriminate H; reflexivity. Qed.
+
+Lemma case_bool : forall k cs, is_bool k = true -> Forall P cs -> P (Node (LOp k) cs).
+Proof.
+  intros k cs Hb IH Hg. destruct (good_node _ _ Hg) as [Har [Hal [Hco [Hgs _]]]].
+  destruct (bool_levels k Hb) as [L1 [L2 [L3 L4]]].
+  simpl in Har. rewrite Hb in Har. destruct cs as [|a [|b more]]; try discriminate Har.
+  simpl kind_of in *.
+  pose proof (children_allowed_const k 0 _ 0 (fun j _ => pos_of_bool k j Hb) Hal) as FA.
+  pose proof (covers_children_const k 0 _ 0 (fun j _ => pos_of_bool k j Hb) Hco) as FC.
+  inversion FA as [|? ? Ha0 FA']; subst. inversion FC as [|? ? Hc0 FC']; subst.
+  inversion Hgs as [|? ? Hg0 Hgs']; subst. inversion IH as [|? ? IH0 IH']; subst.
+  assert (Hk4 : (kind_eqb k KTuple || kind_eqb k KList || kind_eqb k KIdxTuple || kind_eqb k KJoined) = false)
+    by (destruct k; try discriminate Hb; reflexivity).
+  assert (He0 : expr_kindb (ekind a) = true) by (eapply first_expr; eauto).
+  assert (Lo : open_level k = Some (prec k)) by (destruct k; try discriminate Hb; reflexivity).
+  split; [|repeat split; vac]. intros _ lvl rest v Hl G Hv. simpl ekind in Hl.
+  rewrite print_node. simpl kind_of. rewrite (wrap_children_const k 0 _ 0 (fun j _ => pos_of_bool k j Hb)).
+  unfold layout. rewrite Hb. cbn [map sep_by]. rewrite <- app_assoc.
+  rewrite rmin_node in G. simpl kind_of in G. rewrite Lo in G. destruct (guard_min _ _ _ G) as [G1 G2].
+  change (lastv k (a :: b :: more)) with (lastv k (b :: more)) in G2.
+  apply (child_lhs k 0 a Hg0 He0 (P_M a IH0 Hg0 He0)).
+  - intros Hn. split; [pose proof (bare_prec _ _ _ Hc0 Ha0 Hn) as Hbp; lia|].
+    eapply guard_mono; [|apply lowopen_le_rmin; exact Hg0]. simpl sep_tail. cbn [app]. eapply follow0_guard; eauto.
+    + rewrite Hb. reflexivity.
+    + simpl. rewrite Hb, L3. reflexivity.
+  - destruct (bool_chain_ok k Hb (b :: more) IH' Hgs' FA' FC' rest G1 (fun _ => G2)) as [n Hn].
+    destruct Hv as [m Hmv]. exists (S (Nat.max n m)). fuel f Hf.
+    change (map (pw k 0) (b :: more)) with (pw k 0 b :: map (pw k 0) more) in *.
+    simpl sep_tail in *. cbn [app] in *. simpl climb. rewrite Hb. apply Nat.leb_le in Hl. rewrite Hl. simpl andb. cbv iota.
+    rewrite Hn by lia. apply Hmv. lia.
+Qed.
+
+
+Lemma case_compare : forall ops cs, Forall P cs -> P (Node (LCompare ops) cs).
+Proof.
+  intros ops cs IH Hg. destruct (good_node _ _ Hg) as [Har [Hal [Hco [Hgs _]]]].
+  change (arity_ok (LCompare ops) (length cs)) with ((2 <=? length cs) && (S (length ops) =? length cs)) in Har.
+  apply andb_prop in Har. destruct Har as [Har1 Har2]. apply Nat.eqb_eq in Har2.
+  destruct cs as [|a [|b more]]; try discriminate Har1.
+  simpl kind_of in *.
+  pose proof (children_allowed_const KCompare 0 _ 0 (fun j _ => eq_refl) Hal) as FA.
+  pose proof (covers_children_const KCompare 0 _ 0 (fun j _ => eq_refl) Hco) as FC.
+  inversion FA as [|? ? Ha0 FA']; subst. inversion FC as [|? ? Hc0 FC']; subst.
+  inversion Hgs as [|? ? Hg0 Hgs']; subst. inversion IH as [|? ? IH0 IH']; subst.
+  assert (He0 : expr_kindb (ekind a) = true) by (eapply first_expr; eauto).
+  assert (Hlen : length ops = length (b :: more)) by (simpl in Har2; simpl; lia).
+  split; [|repeat split; vac]. intros _ lvl rest v Hl G Hv. simpl ekind in Hl.
+  rewrite print_node. simpl kind_of. rewrite (wrap_children_const KCompare 0 _ 0 (fun j _ => eq_refl)).
+  cbn [layout map]. rewrite <- app_assoc.
+  rewrite rmin_node in G. simpl kind_of in G. change (open_level KCompare) with (Some (prec KCompare)) in G. destruct (guard_min _ _ _ G) as [G1 G2].
+  change (lastv KCompare (a :: b :: more)) with (lastv KCompare (b :: more)) in G2.
+  destruct ops as [|o ops]; [discriminate Hlen|].
+  apply (child_lhs KCompare 0 a Hg0 He0 (P_M a IH0 Hg0 He0)).
+  - intros Hn. split; [pose proof (bare_prec _ _ _ Hc0 Ha0 Hn) as Hbp; simpl in Hbp, Hl; lia|].
+    eapply guard_mono; [|apply lowopen_le_rmin; exact Hg0]. simpl cmp_tail. cbn [app]. eapply follow0_guard; eauto; reflexivity.
+  - destruct (cmp_chain_ok (b :: more) (o :: ops) Hlen IH' Hgs' FA' FC' rest G1 (fun _ => G2)) as [n Hn].
+    destruct Hv as [m Hmv]. exists (S (Nat.max n m)). fuel f Hf.
+    change (map (pw KCompare 0) (b :: more)) with (pw KCompare 0 b :: map (pw KCompare 0) more) in *.
+    simpl cmp_tail in *. cbn [app] in *. simpl climb. apply Nat.leb_le in Hl. simpl in Hl. rewrite Hl.
+    rewrite Hn by lia. apply Hmv. lia.
+Qed.
+
+Lemma case_ifexp : forall cs, Forall P cs -> P (Node (LOp KIfExp) cs).
+Proof.
+  intros cs IH Hg. destruct (good_node _ _ Hg) as [Har [Hal [Hco [Hgs _]]]].
+  destruct cs as [|a [|b [|c [|c' cs]]]]; try discriminate Har.
+  simpl kind_of in *. simpl in Hal, Hco.
+  apply andb_prop in Hal. destruct Hal as [Ha0 Hal]. apply andb_prop in Hal. destruct Hal as [Ha1 Hal]. apply andb_prop in Hal. destruct Hal as [Ha2 _].
+  apply andb_prop in Hco. destruct Hco as [Hc0 Hco]. apply andb_prop in Hco. destruct Hco as [Hc1 Hco]. apply andb_prop in Hco. destruct Hco as [Hc2 _].
+  inversion Hgs as [|? ? Hg0 Hgs1]; subst. inversion Hgs1 as [|? ? Hg1 Hgs2]; subst. inversion Hgs2 as [|? ? Hg2 _]; subst.
+  inversion IH as [|? ? IH0 IHa]; subst. inversion IHa as [|? ? IH1 IHb]; subst. inversion IHb as [|? ? IH2 _]; subst.
+  assert (He0 : expr_kindb (ekind a) = true) by (eapply first_expr; eauto).
+  assert (He1 : expr_kindb (ekind b) = true) by (eapply second_expr; eauto).
+  assert (He2 : expr_kindb (ekind c) = true) by (eapply third_expr; eauto).
+  split; [|repeat split; vac]. intros _ lvl rest v Hl G Hv. simpl ekind in Hl.
+  rewrite print_node. simpl kind_of. rewrite !wrap_children_cons. cbn [layout is_bool is_unary is_binary wrap_children].
+  change (pos_of KIfExp 0) with 0. change (pos_of KIfExp 1) with 1. change (pos_of KIfExp 2) with 2.
+  rewrite <- !app_assoc. cbn [app]. rewrite <- !app_assoc. cbn [app].
+  rewrite rmin_node in G. simpl kind_of in G. change (open_level KIfExp) with (Some 0) in G. destruct (guard_min _ _ _ G) as [G1 G2]. simpl in G2.
+  apply (child_lhs KIfExp 0 a Hg0 He0 (P_M a IH0 Hg0 He0)).
+  - intros Hn. split; [simpl in Hl; lia|].
+    eapply guard_mono; [|apply lowopen_le_rmin; exact Hg0]. eapply follow0_guard; eauto; reflexivity.
+  - destruct (child_at0 KIfExp 1 b Hg1 He1 (P_M b IH1 Hg1 He1) Hc1 Ha1 (TElse :: pw KIfExp 2 c ++ rest) eq_refl) as [n1 Hn1].
+    assert (H2 : Ev (fun f => parse_e f (req KIfExp 2) (pw KIfExp 2 c ++ rest)) (c, rest)).
+    { apply (child_at_r KIfExp 2 c Hg2 He2 (P_M c IH2 Hg2 He2) Hc2 Ha2).
+      - exact G1.
+      - intros Hn. rewrite Hn in G2. exact G2. }
+    destruct H2 as [n2 Hn2]. destruct Hv as [m Hmv]. exists (S (Nat.max (Nat.max n1 n2) m)). fuel f Hf.
+    simpl climb. apply Nat.leb_le in Hl. simpl in Hl. rewrite Hl.
+    change (req KIfExp 1) with 1 in Hn1. rewrite Hn1 by lia. change (req KIfExp 2) with 0 in Hn2. rewrite Hn2 by lia. apply Hmv. lia.
+Qed.
+
+Lemma pos_of_call : forall j, 1 <= j -> pos_of KCall j = 1.
+Proof. intros j H. destruct j; [lia|reflexivity]. Qed.
+
+Lemma case_call : forall cs, Forall P cs -> P (Node (LOp KCall) cs).
+Proof.
+  intros cs IH Hg. destruct (good_node _ _ Hg) as [Har [Hal [Hco [Hgs _]]]].
+  destruct cs as [|fn args]; try discriminate Har.
+  simpl kind_of in *. simpl in Hal, Hco.
+  apply andb_prop in Hal. destruct Hal as [Ha0 Hal]. apply andb_prop in Hco. destruct Hco as [Hc0 Hco].
+  change (pos_of KCall 0) with 0 in *.
+  pose proof (children_allowed_const KCall 1 _ 1 pos_of_call Hal) as FA.
+  pose proof (covers_children_const KCall 1 _ 1 pos_of_call Hco) as FC.
+  inversion Hgs as [|? ? Hg0 Hgs']; subst. inversion IH as [|? ? IH0 IH']; subst.
+  assert (He0 : expr_kindb (ekind fn) = true) by (eapply first_expr; eauto).
+  split; [|repeat split; vac]. intros _ lvl rest v Hl G Hv. simpl ekind in Hl.
+  rewrite print_node. simpl kind_of. rewrite wrap_children_cons. rewrite (wrap_children_const KCall 1 _ 1 pos_of_call).
+  cbn [layout is_bool is_unary is_binary]. change (pos_of KCall 0) with 0. rewrite <- !app_assoc. cbn [app]. rewrite <- !app_assoc. cbn [app].
+  apply (child_lhs KCall 0 fn Hg0 He0 (P_M fn IH0 Hg0 He0)).
+  - intros Hn. split; [pose proof (bare_prec _ _ _ Hc0 Ha0 Hn) as Hbp; simpl in Hbp, Hl; lia|].
+    eapply guard_mono; [|apply lowopen_le_rmin; exact Hg0]. eapply follow0_guard; eauto; reflexivity.
+  - destruct (args_ok args IH' Hgs' FA FC rest) as [n Hn]. destruct Hv as [m Hmv]. exists (S (Nat.max n m)). fuel f Hf.
+    simpl climb. rewrite Hn by lia. apply Hmv. lia.
+Qed.
+
+
+Lemma case_subscript : forall cs, Forall P cs -> P (Node (LOp KSubscript) cs).
+Proof.
+  intros cs IH Hg. destruct (good_node _ _ Hg) as [Har [Hal [Hco [Hgs _]]]].
+  destruct cs as [|a [|ix [|c' cs]]]; try discriminate Har.
+  simpl kind_of in *. simpl in Hal, Hco. change (pos_of KSubscript 0) with 0 in *. change (pos_of KSubscript 1) with 1 in *.
+  apply andb_prop in Hal. destruct Hal as [Ha0 Hal]. apply andb_prop in Hal. destruct Hal as [Ha1 _].
+  apply andb_prop in Hco. destruct Hco as [Hc0 Hco]. apply andb_prop in Hco. destruct Hco as [Hc1 _].
+  inversion Hgs as [|? ? Hg0 Hgs1]; subst. inversion Hgs1 as [|? ? Hg1 _]; subst.
+  inversion IH as [|? ? IH0 IHa]; subst. inversion IHa as [|? ? IH1 _]; subst.
+  assert (He0 : expr_kindb (ekind a) = true) by (eapply first_expr; eauto).
+  split; [|repeat split; vac]. intros _ lvl rest v Hl G Hv. simpl ekind in Hl.
+  rewrite print_node. simpl kind_of. rewrite !wrap_children_cons. cbn [layout is_bool is_unary is_binary wrap_children].
+  change (pos_of KSubscript 0) with 0. change (pos_of KSubscript 1) with 1.
+  rewrite <- !app_assoc. cbn [app]. rewrite <- !app_assoc. cbn [app].
+  apply (child_lhs KSubscript 0 a Hg0 He0 (P_M a IH0 Hg0 He0)).
+  - intros Hn. split; [pose proof (bare_prec _ _ _ Hc0 Ha0 Hn) as Hbp; simpl in Hbp, Hl; lia|].
+    eapply guard_mono; [|apply lowopen_le_rmin; exact Hg0]. eapply follow0_guard; eauto; reflexivity.
+  - assert (H1 : Ev (fun f => parse_index f (pw KSubscript 1 ix ++ TRB :: rest)) (ix, rest)).
+    { destruct (kind_eqb (ekind ix) KIdxTuple) eqn:Ei.
+      - apply kind_eqb_eq in Ei. unfold pw. rewrite (item_bare _ _ _ Hc1) by (rewrite Ei; reflexivity). simpl wrap.
+        destruct (IH1 Hg1) as [_ [_ [_ [_ [H _]]]]]. apply H. exact Ei.
+      - assert (Hni : ekind ix <> KIdxTuple) by (intros E; rewrite E in Ei; discriminate Ei).
+        destruct (sitem_done KSubscript 1 ix (or_intror (conj eq_refl eq_refl)) Hni IH1 Hg1 Ha1 Hc1 (TRB :: rest) eq_refl) as [n Hn].
+        exists (S n). fuel f Hf. rewrite parse_index_S, Hn by lia. reflexivity. }
+    destruct H1 as [n Hn]. destruct Hv as [m Hmv]. exists (S (Nat.max n m)). fuel f Hf.
+    simpl climb. rewrite Hn by lia. apply Hmv. lia.
+Qed.
+
+Lemma case_idxtuple : forall cs, Forall P cs -> P (Node (LOp KIdxTuple) cs).
+Proof.
+  intros cs IH Hg. destruct (good_node _ _ Hg) as [Har [Hal [Hco [Hgs _]]]].
+  destruct cs as [|a [|b more]]; try discriminate Har.
+  simpl kind_of in *.
+  pose proof (children_allowed_const KIdxTuple 0 _ 0 (fun j _ => eq_refl) Hal) as FA.
+  pose proof (covers_children_const KIdxTuple 0 _ 0 (fun j _ => eq_refl) Hco) as FC.
+  inversion FA as [|? ? Ha0 FA']; subst. inversion FC as [|? ? Hc0 FC']; subst.
+  inversion Hgs as [|? ? Hg0 Hgs']; subst. inversion IH as [|? ? IH0 IH']; subst.
+  split; [vac|]. split; [vac|]. split; [vac|]. split; [vac|]. split; [|vac].
+  intros _ rest. rewrite print_node. simpl kind_of. rewrite (wrap_children_const KIdxTuple 0 _ 0 (fun j _ => eq_refl)).
+  cbn [layout is_bool is_unary is_binary]. change (map (pw KIdxTuple 0) (a :: b :: more)) with (pw KIdxTuple 0 a :: pw KIdxTuple 0 b :: map (pw KIdxTuple 0) more).
+  rewrite sep_by_cons2.
+  assert (Hni : ekind a <> KIdxTuple) by (intros E; rewrite E in Ha0; discriminate Ha0).
+  set (X := sep_by TComma (pw KIdxTuple 0 b :: map (pw KIdxTuple 0) more) ++ TRB :: rest).
+  destruct (sitem_done KIdxTuple 0 a (or_introl (conj eq_refl eq_refl)) Hni IH0 Hg0 Ha0 Hc0 (TComma :: X) eq_refl) as [n Hn].
+  destruct (sitems_ok (b :: more) ltac:(discriminate) IH' Hgs' FA' FC' rest) as [m Hmv].
+  change (map (pw KIdxTuple 0) (b :: more)) with (pw KIdxTuple 0 b :: map (pw KIdxTuple 0) more) in Hmv. fold X in Hmv.
+  exists (S (Nat.max n m)). fuel f Hf. rewrite parse_index_S, Hn by lia. rewrite Hmv by lia. reflexivity.
+Qed.
+
+Lemma case_stararg : forall cs, Forall P cs -> P (Node (LOp KStarArg) cs).
+Proof.
+  intros cs IH Hg. destruct (good_node _ _ Hg) as [Har [Hal [Hco [Hgs _]]]].
+  destruct cs as [|c [|c' cs]]; try discriminate Har.
+  simpl kind_of in *. kids1 c Hal Hco Hgs IH. change (pos_of KStarArg 0) with 0 in *.
+  assert (He : expr_kindb (ekind c) = true) by (eapply first_expr; eauto).
+  split; [vac|]. split; [|repeat split; vac].
+  intros _ rest Hr. rewrite print_node. simpl kind_of. rewrite wrap_children_cons. cbn [layout is_bool is_unary is_binary wrap_children concat app].
+  change (pos_of KStarArg 0) with 0. rewrite app_nil_r.
+  destruct (child_at0 KStarArg 0 c Hg1 He (P_M c IH1 Hg1 He) Hco Hal rest Hr) as [n Hn].
+  exists (S n). fuel f Hf. simpl. change (req KStarArg 0) with 0 in Hn. rewrite Hn by lia. reflexivity.
+Qed.
+
+Lemma case_starelt : forall cs, Forall P cs -> P (Node (LOp KStarElt) cs).
+Proof.
+  intros cs IH Hg. destruct (good_node _ _ Hg) as [Har [Hal [Hco [Hgs _]]]].
+  destruct cs as [|c [|c' cs]]; try discriminate Har.
+  simpl kind_of in *. kids1 c Hal Hco Hgs IH. change (pos_of KStarElt 0) with 0 in *.
+  assert (He : expr_kindb (ekind c) = true) by (eapply first_expr; eauto).
+  split; [vac|]. split; [vac|]. split; [|repeat split; vac].
+  intros _ rest Hr. rewrite print_node. simpl kind_of. rewrite wrap_children_cons. cbn [layout is_bool is_unary is_binary wrap_children concat app].
+  change (pos_of KStarElt 0) with 0. rewrite app_nil_r.
+  destruct (child_at0 KStarElt 0 c Hg1 He (P_M c IH1 Hg1 He) Hco Hal rest Hr) as [n Hn].
+  exists (S n). fuel f Hf. simpl. change (req KStarElt 0) with 5 in Hn. rewrite Hn by lia. reflexivity.
+Qed.
+
+Lemma case_keyword : forall name cs, Forall P cs -> P (Node (LKeyword name) cs).
+Proof.
+  intros name cs IH Hg. destruct (good_node _ _ Hg) as [Har [Hal [Hco [Hgs _]]]].
+  destruct cs as [|c [|c' cs]]; try discriminate Har.
+  simpl kind_of in *. kids1 c Hal Hco Hgs IH. change (pos_of KKeyword 0) with 0 in *.
+  assert (He : expr_kindb (ekind c) = true) by (eapply first_expr; eauto).
+  split; [vac|]. split; [|repeat split; vac].
+  intros _ rest Hr. rewrite print_node. simpl kind_of. rewrite wrap_children_cons.
+  destruct (child_at0 KKeyword 0 c Hg1 He (P_M c IH1 Hg1 He) Hco Hal rest Hr) as [n Hn]. change (req KKeyword 0) with 0 in Hn.
+  destruct name as [nm|]; cbn [layout wrap_children concat app]; change (pos_of KKeyword 0) with 0; rewrite app_nil_r;
+    exists (S n); fuel f Hf; simpl; rewrite Hn by lia; reflexivity.
+Qed.
+
+Lemma case_formatted : forall conv spec cs, Forall P cs -> P (Node (LFormatted conv spec) cs).
+Proof.
+  intros conv spec cs IH Hg. destruct (good_node _ _ Hg) as [Har [Hal [Hco [Hgs Hsp]]]].
+  destruct cs as [|c [|c' cs]]; try discriminate Har.
+  simpl kind_of in *. kids1 c Hal Hco Hgs IH. change (pos_of KFormatted 0) with 0 in *.
+  assert (He : expr_kindb (ekind c) = true) by (eapply first_expr; eauto).
+  split; [vac|]. split; [vac|]. split; [vac|]. split; [vac|]. split; [vac|].
+  intros _. exists conv, spec, c, (pw KFormatted 0 c). split; [reflexivity|]. split.
+  - rewrite print_node. simpl kind_of. rewrite wrap_children_cons. cbn [layout wrap_children concat app]. change (pos_of KFormatted 0) with 0.
+    rewrite app_nil_r. destruct Hsp as [Hs|Hs]; [rewrite Hs; reflexivity|]. destruct spec; [contradiction|]. destruct (keep_spec st); reflexivity.
+  - intros tail. exact (child_at0 KFormatted 0 c Hg1 He (P_M c IH1 Hg1 He) Hco Hal (TFClose conv spec :: tail) eq_refl).
+Qed.
+
+
+Lemma elt_head : forall k c rest, k = KTuple \/ k = KList -> good st c = true -> allowed k 0 (ekind c) = true ->
+  exists t r, pw k 0 c ++ rest = t :: r /\ (starts_expr t = true \/ t = TStar).
+Proof.
+  intros k c rest Hk Hg Ha.
+  assert (Ha' : (expr_kindb (ekind c) || kind_eqb (ekind c) KStarElt) = true) by (destruct Hk; subst k; exact Ha).
+  destruct (kind_item_cases _ _ Ha') as [He|[He Hs]].
+  - destruct (pw_head k 0 c rest (fun _ => print_head c Hg He)) as [t [r [E St]]]. exists t, r. split; [exact E|left; exact St].
+  - destruct (item_head c Hg (or_intror (or_introl Hs))) as [t [r [E Ht]]]. unfold pw, wrap.
+    destruct (needs st k 0 (ekind c)).
+    + eexists. eexists. split; [reflexivity|left; reflexivity].
+    + rewrite E. exists t, (r ++ rest). split; [reflexivity|].
+      destruct c as [l cs]. simpl in Hs. destruct l; try discriminate Hs. simpl in Hs. subst k0.
+      rewrite print_node in E. cbn in E. injection E as E1 E2. right. symmetry. exact E1.
+Qed.
+
+Lemma parse_e_paren' : forall f lvl t r, starts_expr t = true \/ t = TStar ->
+  parse_e (S f) lvl (TLP :: t :: r) =
+  match parse_elt f (t :: r) with
+  | Some (a, TRP :: r') => if expr_kindb (ekind a) then climb f lvl a r' else None
+  | Some (a, TTrail :: TRP :: r') => climb f lvl (Node (LOp KTuple) [a]) r'
+  | Some (a, TComma :: r1) =>
+      match parse_elts f r1 with
+      | Some (more, TRP :: r') => climb f lvl (Node (LOp KTuple) (a :: more)) r'
+      | _ => None
+      end
+  | _ => None
+  end.
+Proof. intros f lvl t r [H|H]; [apply parse_e_paren; exact H|subst; apply parse_e_paren_star]. Qed.
+
+Lemma case_tuple : forall cs, Forall P cs -> P (Node (LOp KTuple) cs).
+Proof.
+  intros cs IH Hg. destruct (good_node _ _ Hg) as [Har [Hal [Hco [Hgs _]]]].
+  simpl kind_of in *.
+  pose proof (children_allowed_const KTuple 0 _ 0 (fun j _ => eq_refl) Hal) as FA.
+  pose proof (covers_children_const KTuple 0 _ 0 (fun j _ => eq_refl) Hco) as FC.
+  split; [|repeat split; vac]. intros _ lvl rest v Hl G Hv.
+  rewrite print_node. simpl kind_of. rewrite (wrap_children_const KTuple 0 _ 0 (fun j _ => eq_refl)).
+  destruct cs as [|a [|b more]].
+  - cbn. eapply Ev_step; [|exact Hv]. intros f. reflexivity.
+  - inversion FA as [|? ? Ha0 _]; subst. inversion FC as [|? ? Hc0 _]; subst.
+    inversion Hgs as [|? ? Hg0 _]; subst. inversion IH as [|? ? IH0 _]; subst.
+    cbn [layout is_bool is_unary is_binary map]. cbn [app]. rewrite <- app_assoc. cbn [app].
+    destruct (elt_head KTuple a (TTrail :: TRP :: rest) (or_introl eq_refl) Hg0 Ha0) as [t [r [E St]]].
+    destruct (elt_done KTuple a (or_introl eq_refl) IH0 Hg0 Ha0 Hc0 (TTrail :: TRP :: rest) eq_refl) as [n Hn].
+    destruct Hv as [m Hmv]. exists (S (Nat.max n m)). fuel f Hf. rewrite E in *.
+    rewrite parse_e_paren' by exact St. rewrite Hn by lia. apply Hmv. lia.
+  - inversion FA as [|? ? Ha0 FA']; subst. inversion FC as [|? ? Hc0 FC']; subst.
+    inversion Hgs as [|? ? Hg0 Hgs']; subst. inversion IH as [|? ? IH0 IH']; subst.
+    change (map (pw KTuple 0) (a :: b :: more)) with (pw KTuple 0 a :: pw KTuple 0 b :: map (pw KTuple 0) more).
+    cbn [layout is_bool is_unary is_binary]. cbn [app]. rewrite <- app_assoc. rewrite sep_by_cons2.
+    set (X := sep_by TComma (pw KTuple 0 b :: map (pw KTuple 0) more) ++ [TRP] ++ rest).
+    destruct (elt_head KTuple a (TComma :: X) (or_introl eq_refl) Hg0 Ha0) as [t [r [E St]]].
+    destruct (elt_done KTuple a (or_introl eq_refl) IH0 Hg0 Ha0 Hc0 (TComma :: X) eq_refl) as [n Hn].
+    destruct (elts_ok KTuple (or_introl eq_refl) (b :: more) ltac:(discriminate) IH' Hgs' FA' FC' (TRP :: rest) eq_refl) as [n2 Hn2].
+    change (map (pw KTuple 0) (b :: more)) with (pw KTuple 0 b :: map (pw KTuple 0) more) in Hn2.
+    destruct Hv as [m Hmv]. exists (S (Nat.max (Nat.max n n2) m)). fuel f Hf. rewrite E in *.
+    rewrite parse_e_paren' by exact St. rewrite Hn by lia. subst X. cbn [app]. rewrite Hn2 by lia. apply Hmv. lia.
+Qed.
+
+Lemma case_list : forall cs, Forall P cs -> P (Node (LOp KList) cs).
+Proof.
+  intros cs IH Hg. destruct (good_node _ _ Hg) as [Har [Hal [Hco [Hgs _]]]].
+  simpl kind_of in *.
+  pose proof (children_allowed_const KList 0 _ 0 (fun j _ => eq_refl) Hal) as FA.
+  pose proof (covers_children_const KList 0 _ 0 (fun j _ => eq_refl) Hco) as FC.
+  split; [|repeat split; vac]. intros _ lvl rest v Hl G Hv.
+  rewrite print_node. simpl kind_of. rewrite (wrap_children_const KList 0 _ 0 (fun j _ => eq_refl)).
+  destruct cs as [|a more].
+  - cbn. eapply Ev_step; [|exact Hv]. intros f. reflexivity.
+  - inversion FA as [|? ? Ha0 _]; subst. inversion Hgs as [|? ? Hg0 _]; subst.
+    cbn [layout is_bool is_unary is_binary]. cbn [app]. rewrite <- app_assoc. cbn [app].
+    destruct (elts_ok KList (or_intror eq_refl) (a :: more) ltac:(discriminate) IH Hgs FA FC (TRB :: rest) eq_refl) as [n Hn].
+    change (map (pw KList 0) (a :: more)) with (pw KList 0 a :: map (pw KList 0) more) in *.
+    assert (Hd : exists t r, sep_by TComma (pw KList 0 a :: map (pw KList 0) more) ++ TRB :: rest = t :: r /\ (starts_expr t = true \/ t = TStar)).
+    { cbn [sep_by]. rewrite <- app_assoc. apply elt_head; [right; reflexivity|exact Hg0|exact Ha0]. }
+    destruct Hd as [t [r [E St]]].
+    destruct Hv as [m Hmv]. exists (S (Nat.max n m)). fuel f Hf. rewrite E in *.
+    rewrite parse_e_bracket by exact St. rewrite Hn by lia. apply Hmv. lia.
+Qed.
+
+Lemma case_joined : forall lits cs, Forall P cs -> P (Node (LJoined lits) cs).
+Proof.
+  intros lits cs IH Hg. destruct (good_node _ _ Hg) as [Har [Hal [Hco [Hgs _]]]].
+  simpl kind_of in *.
+  pose proof (children_allowed_const KJoined 0 _ 0 (fun j _ => eq_refl) Hal) as FA.
+  pose proof (covers_children_const KJoined 0 _ 0 (fun j _ => eq_refl) Hco) as FC.
+  change (arity_ok (LJoined lits) (length cs)) with (length lits =? S (length cs)) in Har. apply Nat.eqb_eq in Har.
+  destruct lits as [|l0 ls]; [discriminate Har|]. simpl in Har. injection Har as Har.
+  split; [|repeat split; vac]. intros _ lvl rest v Hl G Hv.
+  rewrite print_node. simpl kind_of. rewrite (wrap_children_const KJoined 0 _ 0 (fun j _ => eq_refl)).
+  cbn [layout]. cbn [app]. rewrite <- app_assoc. cbn [app].
+  destruct (fparts_ok cs ls Har IH Hgs FA FC rest) as [n Hn]. destruct Hv as [m Hmv].
+  exists (S (Nat.max n m)). fuel f Hf. simpl parse_e. rewrite Hn by lia. apply Hmv. lia.
+Qed.
+
+
+Lemma parse_sitem_lower : forall f t r a r', starts_expr t = true ->
+  parse_e f 0 (t :: r) = Some (a, TColon :: r') ->
+  parse_sitem (S f) (t :: r) = slice_after_lower (parse_e f) (Some a) r'.
+Proof.
+  intros f t r a r' Ht Hp.
+  assert (E : parse_sitem (S f) (t :: r) =
+              match parse_e f 0 (t :: r) with
+              | Some (a, TColon :: r) => slice_after_lower (parse_e f) (Some a) r
+              | Some (a, r) => Some (a, r)
+              | None => None
+              end) by (destruct t; try discriminate Ht; reflexivity).
+  rewrite E, Hp. reflexivity.
+Qed.
+
+Lemma slice_ok : forall (lo hi stp : option expr),
+  (forall c, lo = Some c -> SliceKid c) -> (forall c, hi = Some c -> SliceKid c) -> (forall c, stp = Some c -> SliceKid c) ->
+  forall rest, idx_follow rest = true ->
+  Ev (fun f => parse_sitem f (match lo with Some c => pw KSlice 0 c | None => [] end ++ TColon ::
+                              (match hi with Some c => pw KSlice 0 c | None => [] end ++
+                               match stp with Some c => TColon :: pw KSlice 0 c | None => [] end ++ rest)))
+     (mkslice lo hi stp, rest).
+Proof.
+  intros lo hi stp Hlo Hhi Hst rest Hr.
+  set (X := match hi with Some c => pw KSlice 0 c | None => [] end ++ match stp with Some c => TColon :: pw KSlice 0 c | None => [] end ++ rest).
+  destruct lo as [c|].
+  - destruct (Hlo c eq_refl) as [Hg [He [Hm [Hc Ha]]]].
+    destruct (pw_head KSlice 0 c (TColon :: X) (fun _ => print_head c Hg He)) as [t [r [E St]]].
+    destruct (slice_part c Hg He Hm Hc Ha (TColon :: X) eq_refl) as [n Hn].
+    destruct (after_lower_ok (Some c) hi stp rest Hhi Hst Hr) as [m Hmv]. fold X in Hmv.
+    exists (S (Nat.max n m)). fuel f Hf. rewrite E in *. rewrite (parse_sitem_lower f t r c X St) by (apply Hn; lia). apply Hmv. lia.
+  - destruct (after_lower_ok None hi stp rest Hhi Hst Hr) as [m Hmv]. fold X in Hmv.
+    exists (S m). fuel f Hf. cbn [app]. change (parse_sitem (S f) (TColon :: X)) with (slice_after_lower (parse_e f) None X). apply Hmv. lia.
+Qed.
+
+Lemma case_slice : forall lo hi stp cs, Forall P cs -> P (Node (LSlice lo hi stp) cs).
+Proof.
+  intros lo hi stp cs IH Hg. destruct (good_node _ _ Hg) as [Har [Hal [Hco [Hgs _]]]].
+  simpl kind_of in *.
+  pose proof (children_allowed_const KSlice 0 _ 0 (fun j _ => eq_refl) Hal) as FA.
+  pose proof (covers_children_const KSlice 0 _ 0 (fun j _ => eq_refl) Hco) as FC.
+  assert (Kid : forall c, In c cs -> SliceKid c).
+  { intros c Hin. rewrite Forall_forall in IH, Hgs, FA, FC.
+    assert (He : expr_kindb (ekind c) = true) by (eapply first_expr; [apply FA; exact Hin|reflexivity]).
+    split; [apply Hgs; exact Hin|]. split; [exact He|]. split; [apply P_M; [apply IH|apply Hgs|]; assumption|].
+    split; [apply FC|apply FA]; exact Hin. }
+  split; [vac|]. split; [vac|]. split; [vac|]. split; [|repeat split; vac].
+  intros _ rest Hr. rewrite print_node. simpl kind_of. rewrite (wrap_children_const KSlice 0 _ 0 (fun j _ => eq_refl)).
+  change (arity_ok (LSlice lo hi stp) (length cs)) with (length cs =? count_true lo hi stp) in Har. apply Nat.eqb_eq in Har.
+  destruct lo, hi, stp; simpl in Har.
+  - destruct cs as [|c0 [|c1 [|c2 [|c3 cs]]]]; try discriminate Har.
+    pose proof (slice_ok (Some c0) (Some c1) (Some c2)) as H. cbn [layout slice_layout map]. rewrite <- !app_assoc. cbn [app]. rewrite <- !app_assoc. cbn [app] in *.
+    apply H; try assumption; intros c E; injection E as <-; apply Kid; simpl; auto.
+  - destruct cs as [|c0 [|c1 [|c2 cs]]]; try discriminate Har.
+    pose proof (slice_ok (Some c0) (Some c1) None) as H. cbn [layout slice_layout map]. rewrite <- !app_assoc. cbn [app] in *. rewrite ?app_nil_r.
+    apply H; try assumption; intros c E; try discriminate E; injection E as <-; apply Kid; simpl; auto.
+  - destruct cs as [|c0 [|c1 [|c2 cs]]]; try discriminate Har.
+    pose proof (slice_ok (Some c0) None (Some c1)) as H. cbn [layout slice_layout map]. rewrite <- ?app_assoc. cbn [app] in *.
+    apply H; try assumption; intros c E; try discriminate E; injection E as <-; apply Kid; simpl; auto.
+  - destruct cs as [|c0 [|c1 cs]]; try discriminate Har.
+    pose proof (slice_ok (Some c0) None None) as H. cbn [layout slice_layout map]. rewrite <- ?app_assoc. cbn [app] in *.
+    apply H; try assumption; intros c E; try discriminate E; injection E as <-; apply Kid; simpl; auto.
+  - destruct cs as [|c0 [|c1 [|c2 cs]]]; try discriminate Har.
+    pose proof (slice_ok None (Some c0) (Some c1)) as H. cbn [layout slice_layout map]. cbn [app] in *. rewrite <- ?app_assoc. cbn [app] in *.
+    apply H; try assumption; intros c E; try discriminate E; injection E as <-; apply Kid; simpl; auto.
+  - destruct cs as [|c0 [|c1 cs]]; try discriminate Har.
+    pose proof (slice_ok None (Some c0) None) as H. cbn [layout slice_layout map]. cbn [app] in *. rewrite ?app_nil_r.
+    apply H; try assumption; intros c E; try discriminate E; injection E as <-; apply Kid; simpl; auto.
+  - destruct cs as [|c0 [|c1 cs]]; try discriminate Har.
+    pose proof (slice_ok None None (Some c0)) as H. cbn [layout slice_layout map]. cbn [app] in *.
+    apply H; try assumption; intros c E; try discriminate E; injection E as <-; apply Kid; simpl; auto.
+  - destruct cs as [|c0 cs]; try discriminate Har.
+    pose proof (slice_ok None None None) as H. cbn [layout slice_layout map]. cbn [app] in *.
+    apply H; try assumption; intros c E; discriminate E.
+Qed.
+
+
+Theorem all_P : forall e, P e.
+Proof.
+  induction e as [l cs IH] using expr_ind'.
+  destruct l.
+  - apply case_name; exact IH.
+  - apply case_const; exact IH.
+  - intros Hg. destruct (good_node _ _ Hg) as [Har _]. discriminate Har.
+  - destruct (is_bool k) eqn:Hb; [apply case_bool; assumption|].
+    destruct (is_unary k) eqn:Hu; [apply case_unary; assumption|].
+    destruct (is_binary k) eqn:Hn; [apply case_binary; assumption|].
+    destruct k; try discriminate Hb; try discriminate Hu; try discriminate Hn;
+      try (intros Hg; destruct (good_node _ _ Hg) as [Har _]; discriminate Har).
+    + apply case_call; exact IH.
+    + apply case_subscript; exact IH.
+    + apply case_ifexp; exact IH.
+    + apply case_tuple; exact IH.
+    + apply case_list; exact IH.
+    + apply case_idxtuple; exact IH.
+    + apply case_stararg; exact IH.
+    + apply case_starelt; exact IH.
+  - apply case_compare; exact IH.
+  - apply case_lambda; exact IH.
+  - apply case_attribute; exact IH.
+  - apply case_keyword; exact IH.
+  - apply case_slice; exact IH.
+  - apply case_joined; exact IH.
+  - apply case_formatted; exact IH.
+Qed.
+
+(* a whole expression: parsing the printed tokens gives the tree back and consumes everything *)
+Theorem print_parse_roundtrip : forall e, good st e = true -> expr_kindb (ekind e) = true ->
+  exists n, forall f, n <= f -> parse_top f (print st e) = Some e.
+Proof.
+  intros e Hg Hk. pose proof (P_M e (all_P e) Hg Hk) as Hm.
+  assert (H : Ev (fun f => parse_e f 0 (print st e ++ [])) (e, [])).
+  { apply Hm; [lia|reflexivity|]. apply (Ev_climb_stops 0); [reflexivity|lia|lia]. }
+  destruct H as [n Hn]. exists n. intros f Hf. unfold parse_top. rewrite app_nil_r in Hn. rewrite Hn by exact Hf. reflexivity.
+Qed.
+
+(* as an expression that stands somewhere else (any level it fits, anything that cannot continue it afterwards) *)
+Theorem print_parse_prefix : forall e lvl rest, good st e = true -> expr_kindb (ekind e) = true ->
+  lvl <= prec (ekind e) -> guard (Nat.min lvl (rmin e)) rest = true -> lvl <= 13 ->
+  exists n, forall f, n <= f -> parse_e f lvl (print st e ++ rest) = Some (e, rest).
+Proof.
+  intros e lvl rest Hg Hk Hl G L13. destruct (guard_min _ _ _ G) as [G1 G2].
+  apply (P_M e (all_P e) Hg Hk lvl rest (e, rest) Hl G2). apply (Ev_climb_stops lvl); [exact G1|lia|exact L13].
+Qed.
+
 End RoundTrip.
+
